@@ -83,9 +83,14 @@ Local Notation ms_cp := (CompileCorrect4Rel.ms_cp (g_all G) (x_ftab X) TL FS cp)
 Local Notation ms_nocp := (CompileCorrect4Rel.ms_nocp (g_all G) (x_ftab X) TL FS cp).
 Local Notation ms_int := (CompileCorrect4Rel.ms_int (g_all G) (x_ftab X) TL FS cp).
 Local Notation MS_addint := (CompileCorrect4Rel.MS_addint (g_all G) (x_ftab X) TL FS cp).
+Local Notation MS_newarr := (CompileCorrect4Rel.MS_newarr (g_all G) (x_ftab X) TL FS cp).
+Local Notation ms_arr := (CompileCorrect4Rel.ms_arr (g_all G) (x_ftab X) TL FS cp).
+Local Notation ms_arrmi := (CompileCorrect4Rel.ms_arrmi (g_all G) (x_ftab X) TL FS cp).
+Local Notation ms_noarr := (CompileCorrect4Rel.ms_noarr (g_all G) (x_ftab X) TL FS cp).
 Local Notation vrel_fun := (CompileCorrect4Rel.vrel_fun (g_all G) (x_ftab X) TL FS cp).
 Local Notation vrel_intv := (CompileCorrect4Rel.vrel_intv (g_all G) (x_ftab X) TL FS cp).
 Local Notation vrel_kind := (CompileCorrect4Rel.vrel_kind (g_all G) (x_ftab X) TL FS cp).
+Local Notation vrel_arr := (CompileCorrect4Rel.vrel_arr (g_all G) (x_ftab X) TL FS cp).
 Local Notation fun_addr := (CompileCorrect4Rel.fun_addr (g_all G) (x_ftab X)).
 Local Notation cell_rel_intv := (CompileCorrect4Rel.cell_rel_intv (g_all G) (x_ftab X) TL FS).
 Local Notation env_match_g := (CompileCorrect4Rel.env_match G IV).
@@ -341,9 +346,9 @@ Definition is_rethrow (prog : list rinstr) (H : nat) : bool :=
    unchanged, the stack has only grown, the stores are still related.  fp is the one of the start
    state if the handler is a bare LABEL; RETHROW (a fault under a pending MARK has then been unwound
    already); if the handler is a catch clause (CLEAR_STACK resets fp) a MARK may still be pending. *)
-Definition raises (prog : list rinstr) (s : vstate) (lo hi : nat) (m : morph) (st' : state) : Prop :=
+Definition raises (prog : list rinstr) (s : vstate) (lo hi : nat) (m : morph) (st' : state) (ex : exn) : Prop :=
   exists s' fip m' fp', star prog s s' /\ (lo <= fip < hi)%nat /\
-    v_ip s' = hsearch (x_tab X) fip 0 /\ v_fr s' = set_exc (set_fp (v_fr s) fp') ExDivision /\
+    v_ip s' = hsearch (x_tab X) fip 0 /\ v_fr s' = set_exc (set_fp (v_fr s) fp') ex /\
     (is_rethrow prog (v_ip s') = true -> fp' = r_fp (v_fr s)) /\
     (exists t top, v_stk s' = t :: top ++ v_stk s) /\ v_out s' = out st' /\
     MS m' st' (v_heap s') /\ ext m m'.
@@ -351,7 +356,7 @@ Definition raises (prog : list rinstr) (s : vstate) (lo hi : nat) (m : morph) (s
 Definition concl (prog : list rinstr) (s : vstate) (pc n : nat) (m : morph) (r : res) (st' : state) : Prop :=
   match r with
   | ROk c => post_ok prog s (pc + n) m c st'
-  | RExc ex => ex = ExDivision /\ raises prog s pc (pc + n) m st'
+  | RExc ex => ex = ex /\ raises prog s pc (pc + n) m st' ex
   | _ => True
   end.
 
@@ -365,19 +370,19 @@ Proof. intros. exists s', m', a. tauto. Qed.
 Lemma set_fp_same : forall f : fregs, set_fp f (r_fp f) = f.
 Proof. intros [a b c]. reflexivity. Qed.
 
-Lemma raises_weaken : forall prog s lo hi lo' hi' m st', raises prog s lo hi m st' ->
-  (lo' <= lo)%nat -> (hi <= hi')%nat -> raises prog s lo' hi' m st'.
+Lemma raises_weaken : forall prog s lo hi lo' hi' m st' ex, raises prog s lo hi m st' ex ->
+  (lo' <= lo)%nat -> (hi <= hi')%nat -> raises prog s lo' hi' m st' ex.
 Proof.
-  intros prog s lo hi lo' hi' m st' (s' & fip & m' & fp' & H1 & H2 & H3 & H4 & H5 & H6 & H7 & H8 & H9) Hl Hh.
+  intros prog s lo hi lo' hi' m st' ex (s' & fip & m' & fp' & H1 & H2 & H3 & H4 & H5 & H6 & H7 & H8 & H9) Hl Hh.
   exists s', fip, m', fp'. split; [exact H1|]. split; [lia|]. tauto.
 Qed.
 
 (* a run in front of the raising one: same registers, the stack of s on top of the stack of s0 *)
-Lemma raises_star : forall prog s0 s lo hi m0 m st', star prog s0 s ->
+Lemma raises_star : forall prog s0 s lo hi m0 m st' ex, star prog s0 s ->
   v_fr s = v_fr s0 -> (exists pre, v_stk s = pre ++ v_stk s0) ->
-  raises prog s lo hi m st' -> ext m0 m -> raises prog s0 lo hi m0 st'.
+  raises prog s lo hi m st' ex -> ext m0 m -> raises prog s0 lo hi m0 st' ex.
 Proof.
-  intros prog s0 s lo hi m0 m st' Hs Hfr (pre & Hpre)
+  intros prog s0 s lo hi m0 m st' ex Hs Hfr (pre & Hpre)
          (s' & fip & m' & fp' & H1 & H2 & H3 & H4 & H5 & (t & top & H6) & H7 & H8 & H9) Hext.
   exists s', fip, m', fp'. split; [eapply star_trans; eauto|]. split; [exact H2|]. split; [exact H3|].
   split; [congruence|]. split; [rewrite <- Hfr; exact H5|]. split.
@@ -430,7 +435,7 @@ Definition items_concl (prog : list rinstr) (s : vstate) (pc : nat) (code : list
         v_stk s' = a :: locals ++ v_stk s /\ Z.of_nat (length locals) = nb /\
         vrel m' c a /\ MS m' st' (v_heap s') /\ ext m m' /\ v_out s' = out st' /\
         v_fr s' = v_fr s
-    | RExc ex => ex = ExDivision /\ raises prog s pc (pc + length code) m st'
+    | RExc ex => ex = ex /\ raises prog s pc (pc + length code) m st' ex
     | _ => True
     end.
 
@@ -528,7 +533,7 @@ Qed.
 
 Ltac exc_here Ha :=
   let Hr := fresh "Hr" in
-  destruct Ha as [-> Hr]; split; [reflexivity |
+  destruct Ha as [_ Hr]; split; [reflexivity |
     eapply raises_weaken; [exact Hr | lia | rewrite ?app_length; simpl; lia]].
 
 Lemma get_int_not_bool : forall st c z, get_int st c = Some z -> get_bool st c = None.
@@ -699,7 +704,7 @@ Proof.
                 (env_match_push _ _ _ _ _ _ _ _ _ a1 (env_match_ext _ _ _ _ _ _ _ _ _ _ Hem Hext1))) as Hb.
   fold cb in Hb.
   destruct r2 as [c2|ex| |]; simpl in Hb; [| inv He; simpl | inv He; exact I | inv He; exact I].
-  2:{ destruct Hb as [-> Hr]. split; [reflexivity|]. eapply raises_star; [exact Hst1 | reflexivity | stk_ext | eapply raises_weaken; [exact Hr | lia | rewrite !app_length; lia] | ext_tac]. }
+  2:{ destruct Hb as [_ Hr]. split; [reflexivity|]. eapply raises_star; [exact Hst1 | reflexivity | stk_ext | eapply raises_weaken; [exact Hr | lia | rewrite !app_length; lia] | ext_tac]. }
   destruct Hb as (s2 & m2 & a2 & Hst2 & Hip2 & Hstk2 & Hm2 & HMS2 & Hext2 & Hout2 & Hfr2).
   destruct s2 as [ip2 stk2 h2 o2 fr2]; simpl in Hip2, Hstk2, HMS2, Hout2, Hfr2; subst ip2 stk2 fr2.
   assert (Hm1' : vrel m2 c1 a1) by (eapply vrel_ext; eauto).
@@ -774,7 +779,7 @@ Proof.
   pose proof (IH c _ _ _ _ Ec sc Fc prog ip L ce (mkst ip stk h o) m Hcc eq_refl HMS Hout Hem) as Hcnd.
   fold cc in Hcnd.
   destruct r1 as [c1|ex| |]; simpl in Hcnd; [| inv He; simpl | inv He; exact I | inv He; exact I].
-  2:{ destruct Hcnd as [-> Hr]. split; [reflexivity|]. eapply raises_weaken; [exact Hr | lia | lia]. }
+  2:{ destruct Hcnd as [_ Hr]. split; [reflexivity|]. eapply raises_weaken; [exact Hr | lia | lia]. }
   destruct Hcnd as (s1 & m1 & a1 & Hst1 & Hip1 & Hstk1 & Hm1 & HMS1 & Hext1 & Hout1 & Hfr1).
   destruct s1 as [ip1 stk1 h1 o1 fr1]; simpl in Hip1, Hstk1, HMS1, Hout1, Hfr1; subst ip1 stk1 fr1.
   destruct (get_bool st1 c1) as [bv|] eqn:Eg; [|inv He; exact I].
@@ -796,7 +801,7 @@ Proof.
         rewrite (step_jump_fwd _ _ _ _ _ _ _ HJ) by (unfold len; lia).
         f_equal. f_equal. unfold len. lia.
       * eapply ext_trans; eauto.
-    + destruct Ha as [-> Hr]. split; [reflexivity|]. eapply raises_star; [exact Hj | reflexivity | stk_ext | eapply raises_weaken; [exact Hr | lia | lia] | ext_tac].
+    + destruct Ha as [_ Hr]. split; [reflexivity|]. eapply raises_star; [exact Hj | reflexivity | stk_ext | eapply raises_weaken; [exact Hr | lia | lia] | ext_tac].
   - (* condition false: JUMPZ to b *)
     assert (Hj : star prog (mkst ip stk h o) (mkst (S (S (S (ip + length cc) + length ca))) stk h1 o1)).
     { eapply star_snoc; [exact Hst1|].
@@ -814,33 +819,28 @@ Proof.
         apply step_label. exact HL.
       * lia.
       * eapply ext_trans; eauto.
-    + destruct Hb as [-> Hr]. split; [reflexivity|]. eapply raises_star; [exact Hj | reflexivity | stk_ext | eapply raises_weaken; [exact Hr | lia | lia] | ext_tac].
+    + destruct Hb as [_ Hr]. split; [reflexivity|]. eapply raises_star; [exact Hj | reflexivity | stk_ext | eapply raises_weaken; [exact Hr | lia | lia] | ext_tac].
 Qed.
 
-Lemma case_EAssign : forall k l rhs, expr_spec k -> expr_case_at (S k) (EAssign l rhs).
+(* an assignment, whatever the left side: a name (case_EAssign below) or an array element; the left cell is safe to
+   assign to: no copies exist, or it is a known int cell *)
+Lemma assign_core : forall k l rhs, expr_spec k ->
+  forall env st r st', eval genv (S k) env st (EAssign l rhs) = (r, st') ->
+  forall sc, in_F (fc_self fc) lv sc l = true -> int_shaped rhs = true -> in_F (fc_self fc) lv sc rhs = true ->
+  forall prog L ce ip stk h o m,
+    code_at prog ip (compile_expr fc L ce (EAssign l rhs)) ->
+    MS m st h -> o = out st -> env_match m env ce sc L stk ->
+    (forall c1 st1, eval genv k env st l = (ROk c1, st1) ->
+       forall m1 h1, MS m1 st1 h1 -> ext m m1 -> cp = false \/ In c1 (mi m1)) ->
+    concl prog (mkst ip stk h o) ip (length (compile_expr fc L ce (EAssign l rhs))) m r st'.
 Proof.
-  intros k l rhs IH env st r st' He sc HF prog L ce ip stk h o m Hc HMS Hout Hem.
-  simpl in HF. destruct l; try discriminate HF.
-  apply andb_true_iff in HF; destruct HF as [Fx Fb].
-  apply andb_true_iff in Fx; destruct Fx as [Fx Fsh].
-  apply andb_true_iff in Fx; destruct Fx as [Flv Fx].
-  assert (Hsafe : forall c1 st1, eval genv k env st (EVar x) = (ROk c1, st1) -> cp = false \/ In c1 (mi m)).
-  { intros c1 st1 Ea. unfold at6 in Flv. destruct (Nat.leb lv 5) eqn:E5.
-    - left. unfold cp. apply Nat.leb_le in E5. apply Nat.leb_gt. lia.
-    - right. cbn [orb] in Flv.
-      assert (Hcp : cp = true) by (unfold cp; apply Nat.leb_gt in E5; apply Nat.leb_le; lia).
-      assert (Hxi : mem_id x IV = true) by (unfold IV, CompileCorrect4Rel.ivs; rewrite Hcp; exact Flv).
-      destruct (proj1 Hem x Fx) as (c & a & Hl & _).
-      destruct k as [|k']; [rewrite eval_O in Ea; discriminate|].
-      rewrite eval_EVar in Ea. unfold lookup_var in Ea. rewrite Hl in Ea. inversion Ea; subst.
-      exact (proj2 (proj2 (proj2 (proj2 (proj2 (proj2 (proj2 Hem)))))) x c1 Fx Hxi Hl). }
-  assert (Fa : in_F (fc_self fc) lv sc (EVar x) = true) by (cbn [Compile4.in_F]; rewrite Fx; reflexivity).
+  intros k l rhs IH env st r st' He sc Fa Fsh Fb prog L ce ip stk h o m Hc HMS Hout Hem Hsafe.
   rewrite eval_EAssign in He.
-  change (compile_expr fc L ce (EAssign (EVar x) rhs))
-    with (compile_expr fc L ce (EVar x) ++ compile_expr fc (L + 1) ce rhs ++ [ins0 BYTECODE_OP_ASS_INT]) in *.
-  set (ca := compile_expr fc L ce (EVar x)) in *. set (cb := compile_expr fc (L + 1) ce rhs) in *.
-  destruct (eval genv k env st (EVar x)) as [r1 st1] eqn:Ea.
-  pose proof (IH (EVar x) _ _ _ _ Ea sc Fa prog ip L ce (mkst ip stk h o) m
+  change (compile_expr fc L ce (EAssign l rhs))
+    with (compile_expr fc L ce l ++ compile_expr fc (L + 1) ce rhs ++ [ins0 BYTECODE_OP_ASS_INT]) in *.
+  set (ca := compile_expr fc L ce l) in *. set (cb := compile_expr fc (L + 1) ce rhs) in *.
+  destruct (eval genv k env st l) as [r1 st1] eqn:Ea.
+  pose proof (IH l _ _ _ _ Ea sc Fa prog ip L ce (mkst ip stk h o) m
                 (code_at_app_l _ _ _ _ Hc) eq_refl HMS Hout Hem) as Ha. fold ca in Ha.
   destruct r1 as [c1|ex| |]; simpl in Ha; [| inv He; simpl; exc_here Ha | inv He; exact I | inv He; exact I].
   destruct Ha as (s1 & m1 & a1 & Hst1 & Hip1 & Hstk1 & Hm1 & HMS1 & Hext1 & Hout1 & Hfr1).
@@ -855,7 +855,7 @@ Proof.
                 (env_match_push _ _ _ _ _ _ _ _ _ a1 (env_match_ext _ _ _ _ _ _ _ _ _ _ Hem Hext1))) as Hb.
   fold cb in Hb.
   destruct r2 as [c2|ex| |]; simpl in Hb; [| inv He; simpl | inv He; exact I | inv He; exact I].
-  2:{ destruct Hb as [-> Hr]. split; [reflexivity|]. eapply raises_star; [exact Hst1 | reflexivity | stk_ext | eapply raises_weaken; [exact Hr | lia | rewrite !app_length; lia] | ext_tac]. }
+  2:{ destruct Hb as [_ Hr]. split; [reflexivity|]. eapply raises_star; [exact Hst1 | reflexivity | stk_ext | eapply raises_weaken; [exact Hr | lia | rewrite !app_length; lia] | ext_tac]. }
   destruct Hb as (s2 & m2 & a2 & Hst2 & Hip2 & Hstk2 & Hm2 & HMS2 & Hext2 & Hout2 & Hfr2).
   destruct s2 as [ip2 stk2 h2 o2 fr2]; simpl in Hip2, Hstk2, HMS2, Hout2, Hfr2; subst ip2 stk2 fr2.
   assert (Hm1' : vrel m2 c1 a1) by (eapply vrel_ext; eauto).
@@ -865,8 +865,8 @@ Proof.
   assert (P2' : hint h2 a2 = Some z) by (unfold hint; rewrite P2; reflexivity).
   pose proof (MS_addr_lt _ _ _ _ _ HMS2 Hm1') as Hlt.
   assert (Hsafe2 : cp = false \/ In c1 (mi m2)).
-  { destruct (Hsafe c1 st1 eq_refl) as [Hx | Hx]; [left; exact Hx | right].
-    eapply ext_mi; [eapply ext_trans; [exact Hext1 | exact Hext2] | exact Hx]. }
+  { destruct (Hsafe c1 st1 eq_refl m1 h1 HMS1 Hext1) as [Hx | Hx]; [left; exact Hx | right].
+    eapply ext_mi; [exact Hext2 | exact Hx]. }
   pose proof (MS_assign _ _ _ _ _ _ _ HMS2 Hsafe2 Hm1' Hv) as HMS3.
   inv He. simpl.
   apply (post_ok_intro _ _ _ _ _ _ (mkst (S (ip + length ca + length cb)) (a1 :: stk) (list_upd h2 a1 (HInt z)) (out st2)) m2 a1);
@@ -875,6 +875,131 @@ Proof.
     apply step_ass; auto.
   - rewrite !app_length. simpl. lia.
   - eapply ext_trans; eauto.
+Qed.
+
+(* the element cells of the arrays are int cells *)
+Lemma index_cell_int : forall k env st a i c1 st1 m1 h1,
+  eval genv k env st (EIndex a i) = (ROk c1, st1) -> MS m1 st1 h1 -> In c1 (mi m1).
+Proof.
+  intros k env st a i c1 st1 m1 h1 He HMS1.
+  destruct k as [|k]; [rewrite eval_O in He; discriminate|].
+  rewrite eval_EIndex in He.
+  destruct (eval genv k env st a) as [[ca|?| |] sta]; try (inversion He; fail).
+  destruct (eval genv k env sta i) as [[ci|?| |] sti]; try (inversion He; fail).
+  unfold index_result in He.
+  destruct (get_cell sti ca) as [[?|?|? ?|[ar|]|?]|]; try (destruct (get_int sti ci); inversion He; fail).
+  destruct (get_int sti ci) as [z|]; [|inversion He].
+  destruct (nth_error (arrs sti) ar) as [elems|] eqn:Ear; [|inversion He].
+  destruct ((z <? 0) || (Z.of_nat (length elems) <=? z)); [inversion He|].
+  destruct (nth_error elems (Z.to_nat z)) as [c|] eqn:En; inversion He; subst c sti.
+  pose proof (ms_arrmi _ _ _ HMS1 ar elems Ear) as Hall. rewrite Forall_forall in Hall.
+  apply Hall. eapply nth_error_In; eauto.
+Qed.
+
+Lemma case_EAssign : forall k l rhs, expr_spec k -> expr_case_at (S k) (EAssign l rhs).
+Proof.
+  intros k l rhs IH env st r st' He sc HF prog L ce ip stk h o m Hc HMS Hout Hem.
+  cbn [Compile4.in_F] in HF. destruct l; try discriminate HF.
+  - (* a name *)
+    apply andb_true_iff in HF; destruct HF as [Fx Fb].
+    apply andb_true_iff in Fx; destruct Fx as [Fx Fsh].
+    apply andb_true_iff in Fx; destruct Fx as [Flv Fx].
+    assert (Fa : in_F (fc_self fc) lv sc (EVar x) = true) by (cbn [Compile4.in_F]; rewrite Fx; reflexivity).
+    eapply assign_core; eauto.
+    intros c1 st1 Ea m1 h1 HMS1 Hext1. unfold at6 in Flv. destruct (Nat.leb lv 5) eqn:E5.
+    + left. unfold cp. apply Nat.leb_le in E5. apply Nat.leb_gt. lia.
+    + right. cbn [orb] in Flv.
+      assert (Hcp : cp = true) by (unfold cp; apply Nat.leb_gt in E5; apply Nat.leb_le; lia).
+      assert (Hxi : mem_id x IV = true) by (unfold IV, CompileCorrect4Rel.ivs; rewrite Hcp; exact Flv).
+      destruct (proj1 Hem x Fx) as (c & a & Hl & _).
+      destruct k as [|k']; [rewrite eval_O in Ea; discriminate|].
+      rewrite eval_EVar in Ea. unfold lookup_var in Ea. rewrite Hl in Ea. inversion Ea; subst.
+      eapply ext_mi; [exact Hext1|].
+      exact (proj2 (proj2 (proj2 (proj2 (proj2 (proj2 (proj2 Hem)))))) x c1 Fx Hxi Hl).
+  - (* an array element *)
+    apply andb_true_iff in HF; destruct HF as [HF Fb].
+    apply andb_true_iff in HF; destruct HF as [HF Fsh].
+    apply andb_true_iff in HF; destruct HF as [HF Fi].
+    apply andb_true_iff in HF; destruct HF as [Flv Fa0].
+    assert (Fa : in_F (fc_self fc) lv sc (EIndex l1 l2) = true).
+    { cbn [Compile4.in_F]. rewrite Flv, Fa0, Fi. reflexivity. }
+    eapply assign_core; eauto.
+    intros c1 st1 Ea m1 h1 HMS1 Hext1. right. eapply index_cell_int; eauto.
+Qed.
+
+(* ---- one-dimensional int arrays (level 7) ------------------------------------------------------- *)
+
+Lemma step_aderef : forall prog ip stk h o ai aa z l,
+  nth_error prog ip = Some (ins BYTECODE_ARRAYREF_DEREF 1 0) -> hint h ai = Some z -> nth_error h aa = Some (HVec l) ->
+  step prog (mkst ip (ai :: aa :: stk) h o) =
+  if (z <? 0) || (Z.of_nat (length l) <=? z)
+  then SNext (ValueVM4.mkst (hsearch (x_tab X) ip 0) (aa :: stk) h o (set_exc fr ExIndexOob))
+  else match nth_error l (Z.to_nat z) with
+       | Some a => SNext (mkst (S ip) (a :: stk) h o)
+       | None => SStuck end.
+Proof. intros prog ip stk h o ai aa z l H H0 H1. unfold ValueVM4.step. simpl. rewrite H. simpl. rewrite H0, H1. reflexivity. Qed.
+
+(* a[i]: the array, the index, ARRAYREF_DEREF 1 — the element cell's image, or index_out_of_bounds dispatched *)
+Lemma case_EIndex : forall k a i, expr_spec k -> expr_case_at (S k) (EIndex a i).
+Proof.
+  intros k a b IH env st r st' He sc HF prog L ce ip stk h o m Hc HMS Hout Hem.
+  cbn [Compile4.in_F] in HF.
+  apply andb_true_iff in HF; destruct HF as [HF Fb].
+  apply andb_true_iff in HF; destruct HF as [_ Fa].
+  rewrite eval_EIndex in He.
+  change (compile_expr fc L ce (EIndex a b))
+    with (compile_expr fc L ce a ++ compile_expr fc (L + 1) ce b ++ [ins BYTECODE_ARRAYREF_DEREF 1 0]) in *.
+  set (ca := compile_expr fc L ce a) in *. set (cb := compile_expr fc (L + 1) ce b) in *.
+  destruct (eval genv k env st a) as [r1 st1] eqn:Ea.
+  pose proof (IH a _ _ _ _ Ea sc Fa prog ip L ce (mkst ip stk h o) m
+                (code_at_app_l _ _ _ _ Hc) eq_refl HMS Hout Hem) as Ha. fold ca in Ha.
+  destruct r1 as [c1|ex| |]; simpl in Ha; [| inv He; simpl; exc_here Ha | inv He; exact I | inv He; exact I].
+  destruct Ha as (s1 & m1 & a1 & Hst1 & Hip1 & Hstk1 & Hm1 & HMS1 & Hext1 & Hout1 & Hfr1).
+  destruct s1 as [ip1 stk1 h1 o1 fr1]; simpl in Hip1, Hstk1, HMS1, Hout1, Hfr1; subst ip1 stk1 fr1.
+  destruct (eval genv k env st1 b) as [r2 st2] eqn:Eb.
+  assert (Hcb : code_at prog (ip + length ca) cb).
+  { apply code_at_app_l with (c2 := [ins BYTECODE_ARRAYREF_DEREF 1 0]). apply code_at_app_r. exact Hc. }
+  assert (Hcop : nth_error prog (ip + length ca + length cb) = Some (ins BYTECODE_ARRAYREF_DEREF 1 0)).
+  { eapply code_at_head. apply code_at_app_r. apply code_at_app_r. exact Hc. }
+  pose proof (IH b _ _ _ _ Eb sc Fb prog (ip + length ca)%nat (L + 1) ce
+                (mkst (ip + length ca) (a1 :: stk) h1 o1) m1 Hcb eq_refl HMS1 Hout1
+                (env_match_push _ _ _ _ _ _ _ _ _ a1 (env_match_ext _ _ _ _ _ _ _ _ _ _ Hem Hext1))) as Hb.
+  fold cb in Hb.
+  destruct r2 as [c2|ex| |]; simpl in Hb; [| inv He; simpl | inv He; exact I | inv He; exact I].
+  2:{ destruct Hb as [_ Hr]. split; [reflexivity|]. eapply raises_star; [exact Hst1 | reflexivity | stk_ext | eapply raises_weaken; [exact Hr | lia | rewrite !app_length; lia] | ext_tac]. }
+  destruct Hb as (s2 & m2 & a2 & Hst2 & Hip2 & Hstk2 & Hm2 & HMS2 & Hext2 & Hout2 & Hfr2).
+  destruct s2 as [ip2 stk2 h2 o2 fr2]; simpl in Hip2, Hstk2, HMS2, Hout2, Hfr2; subst ip2 stk2 fr2.
+  assert (Hm1' : vrel m2 c1 a1) by (eapply vrel_ext; eauto).
+  assert (Hst : star prog (mkst ip stk h o) (mkst (ip + length ca + length cb) (a2 :: a1 :: stk) h2 o2))
+    by (eapply star_trans; eauto).
+  assert (Hext : ext m m2) by (eapply ext_trans; eauto).
+  unfold index_result in He.
+  destruct (vrel_kind _ _ _ _ _ HMS2 Hm1') as (v1 & Hcv1 & Hk1).
+  unfold get_cell in He. rewrite Hcv1 in He.
+  destruct v1 as [?|?|? ?|[ar|]|?]; try contradiction; try (destruct (get_int st2 c2); inv He; exact I).
+  destruct (get_int st2 c2) as [z|] eqn:G2; [|inv He; exact I].
+  pose proof (MS_payload_int _ _ _ _ _ _ HMS2 Hm2 G2) as P2.
+  destruct (vrel_arr _ _ _ _ _ _ HMS2 Hm1' Hcv1) as (l & Hhl & Hrec).
+  destruct (ms_arr _ _ _ HMS2 ar l Hrec) as (elems & Hel & HFel).
+  rewrite Hel in He.
+  assert (Hlen : length l = length elems) by (clear -HFel; induction HFel; simpl; congruence).
+  pose proof (step_aderef prog (ip + length ca + length cb) stk h2 o2 a2 a1 z l Hcop P2 Hhl) as Hstep.
+  rewrite Hlen in Hstep.
+  destruct ((z <? 0) || (Z.of_nat (length elems) <=? z)) eqn:Eoob.
+  - (* index_out_of_bounds *)
+    inv He. simpl. split; [reflexivity|].
+    exists (ValueVM4.mkst (hsearch (x_tab X) (ip + length ca + length cb) 0) (a1 :: stk) h2 (out st') (set_exc fr ExIndexOob)),
+           (ip + length ca + length cb)%nat, m2, (r_fp fr).
+    split; [eapply star_snoc; [exact Hst | exact Hstep]|]. split; [rewrite !app_length; simpl; lia|]. split; [reflexivity|].
+    split; [simpl; rewrite set_fp_same; reflexivity|]. split; [reflexivity|].
+    split; [exists a1, []; reflexivity|]. split; [reflexivity|]. split; [exact HMS2 | exact Hext].
+  - destruct (nth_error elems (Z.to_nat z)) as [c|] eqn:En; [|inv He; exact I].
+    inv He. simpl.
+    destruct (Forall2_nth_l _ _ _ _ _ HFel En) as (ae & Hae & Hvae).
+    rewrite Hae in Hstep.
+    apply (post_ok_intro _ _ _ _ _ _ (mkst (S (ip + length ca + length cb)) (ae :: stk) h2 (out st')) m2 ae); simpl; auto.
+    + eapply star_snoc; [exact Hst | exact Hstep].
+    + rewrite !app_length. simpl. lia.
 Qed.
 
 Lemma items_F1_let : forall sc x e t, items_F (fc_self fc) lv sc (ILet x e :: t) =
@@ -914,7 +1039,7 @@ Proof.
       apply (post_ok_intro _ _ _ _ _ _ (mkst (ip + length (compile_items fc L ce items)) (a :: stk) h1 o1) m1 a);
         simpl; auto.
       rewrite app_nil_r. reflexivity.
-  - destruct Hi as [-> Hr]. split; [reflexivity|].
+  - destruct Hi as [_ Hr]. split; [reflexivity|].
     eapply raises_weaken; [exact Hr | lia | rewrite app_length; lia].
 Qed.
 
@@ -974,7 +1099,7 @@ Proof.
     cbn [v_ip v_stk v_heap v_out v_fr ValueVM4.mkst]. split; [eapply star_trans; eauto|]. split; [rewrite app_length; lia|].
     split; [rewrite <- app_assoc; reflexivity|]. split; [rewrite app_length; cbn [length]; lia|].
     split; [exact Hm2|]. split; [exact HMS2|]. split; [eapply ext_trans; eauto|]. split; [exact Hout2 | reflexivity].
-  - destruct Ht as [-> Hr]. split; [reflexivity|]. eapply raises_star; [exact Hst1 | reflexivity | stk_ext | eapply raises_weaken; [exact Hr | lia | rewrite app_length; lia] | ext_tac].
+  - destruct Ht as [_ Hr]. split; [reflexivity|]. eapply raises_star; [exact Hst1 | reflexivity | stk_ext | eapply raises_weaken; [exact Hr | lia | rewrite app_length; lia] | ext_tac].
 Qed.
 
 Lemma Forall2_build : forall {A B} (P : A -> B -> Prop) (l : list A),
@@ -1274,11 +1399,11 @@ Proof.
   assert (Hlen := ms_len _ _ _ HMS).
   (* the extended environment, for any recorded vectors and copies *)
   assert (Hem' : forall nv nf ncp, CompileCorrect4Rel.env_match G IV fc (r_gp fr) gl
-                   {| mm := mm m ++ map MA (seq (length h) kk); mv := mv m ++ nv; mf := mf m ++ nf; mc := mc m ++ ncp; mi := mi m |} e' ce'
+                   {| mm := mm m ++ map MA (seq (length h) kk); mv := mv m ++ nv; mf := mf m ++ nf; mc := mc m ++ ncp; mi := mi m; mar := mar m |} e' ce'
                    (map fd_name fds ++ sc) L' Sk).
   { intros nv nf ncp. apply (env_match_run G IV fc (r_gp fr) gl m env ce sc L stk fds st h nv nf ncp Hem Hnd Hnew Hlen). }
   (* what every function of the run captures *)
-  set (m0 := {| mm := mm m ++ map MA (seq (length h) kk); mv := mv m ++ []; mf := mf m ++ []; mc := mc m ++ []; mi := mi m |}).
+  set (m0 := {| mm := mm m ++ map MA (seq (length h) kk); mv := mv m ++ []; mf := mf m ++ []; mc := mc m ++ []; mi := mi m; mar := mar m |}).
   assert (Hfv' : forall f, In f fds ->
             forallb (fun y => mem_id y (map fd_name fds ++ sc) || (cp && self_is (fc_self fc) y)) (fvs_fd TL f) = true).
   { intros f Hf. rewrite forallb_forall in Hfv. specialize (Hfv f Hf). apply andb_true_iff in Hfv. exact (proj2 Hfv). }
@@ -1304,7 +1429,7 @@ Proof.
   set (ncp := cps_of TL fc cf ce' (length h + kk) fds).
   set (nv := combine vs addrss).
   set (nf := combine (seq (length (cells st)) kk) (map (fun f => (f, e')) fds)).
-  set (m' := {| mm := mm m ++ map MA (seq (length h) kk); mv := mv m ++ nv; mf := mf m ++ nf; mc := mc m ++ ncp; mi := mi m |}).
+  set (m' := {| mm := mm m ++ map MA (seq (length h) kk); mv := mv m ++ nv; mf := mf m ++ nf; mc := mc m ++ ncp; mi := mi m; mar := mar m |}).
   assert (Hext : ext m m') by ext_solve.
   assert (Hext0' : ext m0 m').
   { unfold ext, m0, m'. cbn [mm mv mf mc mi]. rewrite !app_nil_r. repeat split; first [exists []; now rewrite app_nil_r | eexists; reflexivity]. }
@@ -1412,7 +1537,7 @@ Proof.
     split; [rewrite Hstk2; unfold Sk; cbn [v_stk ValueVM4.mkst]; rewrite <- app_assoc; reflexivity|].
     split; [rewrite app_length, HlenS, Hnb; lia|].
     split; [exact Hm2|]. split; [exact HMS2|]. split; [eapply ext_trans; eauto|]. split; [exact Hout2 | exact Hfr2].
-  - destruct Ht as [-> Hr]. split; [reflexivity|].
+  - destruct Ht as [_ Hr]. split; [reflexivity|].
     eapply raises_star; [exact Hst | reflexivity | exists (rev (seq (length h) kk)); reflexivity
                         | eapply raises_weaken; [exact Hr | lia | cbn [length]; rewrite app_length; lia] | exact Hext].
 Qed.
@@ -1463,7 +1588,7 @@ Proof.
         split; [rewrite Hip2, app_length; simpl; lia|].
         split; [exact Hstk2|]. split; [exact Hlen|]. split; [exact Hm2|]. split; [exact HMS2|].
         split; [eapply ext_trans; eauto|]. split; [exact Hout2 | exact Hfr2].
-      * destruct Ht as [-> Hr]. split; [reflexivity|]. eapply raises_star; [exact Hpop | reflexivity | stk_ext | eapply raises_weaken; [exact Hr | lia | rewrite app_length; simpl; lia] | ext_tac].
+      * destruct Ht as [_ Hr]. split; [reflexivity|]. eapply raises_star; [exact Hpop | reflexivity | stk_ext | eapply raises_weaken; [exact Hr | lia | rewrite app_length; simpl; lia] | ext_tac].
 Qed.
 
 (* ---- stage 2: short-circuit operators, loops, print ------------------------------------------- *)
@@ -1501,10 +1626,13 @@ Proof.
     + intros a1 vec addr Hh. rewrite nth_error_app1; [exact Hh | apply nth_error_Some; congruence].
   - apply (ms_nocp _ _ _ HMS).
   - apply (ms_int _ _ _ HMS).
+  - apply (ms_arr _ _ _ HMS).
+  - apply (ms_arrmi _ _ _ HMS).
+  - apply (ms_noarr _ _ _ HMS).
 Qed.
 
 Lemma MS_print : forall m st h z, MS m st h -> MS m (print_num st z) h.
-Proof. intros m st h z HMS. constructor; [apply (ms_len _ _ _ HMS) | apply (ms_rel _ _ _ HMS) | apply (ms_inj _ _ _ HMS) | apply (ms_fun _ _ _ HMS) | apply (ms_vec _ _ _ HMS) | apply (ms_fcl _ _ _ HMS) | apply (ms_fself _ _ _ HMS) | apply (ms_cp _ _ _ HMS) | apply (ms_nocp _ _ _ HMS) | apply (ms_int _ _ _ HMS)]. Qed.
+Proof. intros m st h z HMS. constructor; [apply (ms_len _ _ _ HMS) | apply (ms_rel _ _ _ HMS) | apply (ms_inj _ _ _ HMS) | apply (ms_fun _ _ _ HMS) | apply (ms_vec _ _ _ HMS) | apply (ms_fcl _ _ _ HMS) | apply (ms_fself _ _ _ HMS) | apply (ms_cp _ _ _ HMS) | apply (ms_nocp _ _ _ HMS) | apply (ms_int _ _ _ HMS) | apply (ms_arr _ _ _ HMS) | apply (ms_arrmi _ _ _ HMS) | apply (ms_noarr _ _ _ HMS)]. Qed.
 
 
 (* a run that ends where it started (same stack, extended morphism) can be put in front *)
@@ -1517,7 +1645,7 @@ Proof.
     exists s', m', a. split; [eapply star_trans; eauto|]. split; [exact H2|].
     split; [congruence|]. split; [exact H4|]. split; [exact H5|]. split; [eapply ext_trans; eauto|].
     split; [exact H7 | congruence].
-  - destruct Hc as [-> Hr]. split; [reflexivity|].
+  - destruct Hc as [_ Hr]. split; [reflexivity|].
     eapply raises_star; [exact Hst | exact Hfr | exists []; simpl; congruence | exact Hr | exact Hext].
 Qed.
 
@@ -1581,7 +1709,7 @@ Proof.
   pose proof (IH a _ _ _ _ Ea sc Fa prog ip L ce (mkst ip stk h o) m Hca eq_refl HMS Hout Hem) as Ha.
   fold ca in Ha.
   destruct r1 as [c1|ex| |]; simpl in Ha; [| inv He; simpl | inv He; exact I | inv He; exact I].
-  2:{ destruct Ha as [-> Hr]. split; [reflexivity|]. eapply raises_weaken; [exact Hr | lia | lia]. }
+  2:{ destruct Ha as [_ Hr]. split; [reflexivity|]. eapply raises_weaken; [exact Hr | lia | lia]. }
   destruct Ha as (s1 & m1 & a1 & Hst1 & Hip1 & Hstk1 & Hm1 & HMS1 & Hext1 & Hout1 & Hfr1).
   destruct s1 as [ip1 stk1 h1 o1 fr1]; simpl in Hip1, Hstk1, HMS1, Hout1, Hfr1; subst ip1 stk1 fr1.
   destruct (get_bool st1 c1) as [bv|] eqn:Eg; [|inv He; exact I].
@@ -1601,7 +1729,7 @@ Proof.
                   Hcb eq_refl HMS1 Hout1 (env_match_ext _ _ _ _ _ _ _ _ _ _ Hem Hext1)) as Hb.
     fold cb in Hb.
     destruct r2 as [c2|ex| |]; simpl in Hb; [| inv He; simpl | inv He; exact I | inv He; exact I].
-    2:{ destruct Hb as [-> Hr]. split; [reflexivity|]. eapply raises_star; [exact Hj | reflexivity | stk_ext | eapply raises_weaken; [exact Hr | lia | lia] | ext_tac]. }
+    2:{ destruct Hb as [_ Hr]. split; [reflexivity|]. eapply raises_star; [exact Hj | reflexivity | stk_ext | eapply raises_weaken; [exact Hr | lia | lia] | ext_tac]. }
     destruct Hb as (s2 & m2 & a2 & Hst2 & Hip2 & Hstk2 & Hm2 & HMS2 & Hext2 & Hout2 & Hfr2).
     destruct s2 as [ip2 stk2 h2 o2 fr2]; simpl in Hip2, Hstk2, HMS2, Hout2, Hfr2; subst ip2 stk2 fr2.
     destruct (get_bool st2 c2) as [bv2|] eqn:Eg2; [|inv He; exact I].
@@ -1667,7 +1795,7 @@ Proof.
   pose proof (IH a _ _ _ _ Ea sc Fa prog ip L ce (mkst ip stk h o) m Hca eq_refl HMS Hout Hem) as Ha.
   fold ca in Ha. fold p1 in Ha.
   destruct r1 as [c1|ex| |]; simpl in Ha; [| inv He; simpl | inv He; exact I | inv He; exact I].
-  2:{ destruct Ha as [-> Hr]. split; [reflexivity|]. eapply raises_weaken; [exact Hr | lia | subst p1; lia]. }
+  2:{ destruct Ha as [_ Hr]. split; [reflexivity|]. eapply raises_weaken; [exact Hr | lia | subst p1; lia]. }
   destruct Ha as (s1 & m1 & a1 & Hst1 & Hip1 & Hstk1 & Hm1 & HMS1 & Hext1 & Hout1 & Hfr1).
   destruct s1 as [ip1 stk1 h1 o1 fr1]; simpl in Hip1, Hstk1, HMS1, Hout1, Hfr1; subst ip1 stk1 fr1.
   destruct (get_bool st1 c1) as [bv|] eqn:Eg; [|inv He; exact I].
@@ -1686,7 +1814,7 @@ Proof.
                   Hcb eq_refl HMS1 Hout1 (env_match_ext _ _ _ _ _ _ _ _ _ _ Hem Hext1)) as Hb.
     fold cb in Hb. fold p2 in Hb.
     destruct r2 as [c2|ex| |]; simpl in Hb; [| inv He; simpl | inv He; exact I | inv He; exact I].
-    2:{ destruct Hb as [-> Hr]. split; [reflexivity|]. eapply raises_star; [exact Hj | reflexivity | stk_ext | eapply raises_weaken; [exact Hr | subst p1; lia | lia] | ext_tac]. }
+    2:{ destruct Hb as [_ Hr]. split; [reflexivity|]. eapply raises_star; [exact Hj | reflexivity | stk_ext | eapply raises_weaken; [exact Hr | subst p1; lia | lia] | ext_tac]. }
     destruct Hb as (s2 & m2 & a2 & Hst2 & Hip2 & Hstk2 & Hm2 & HMS2 & Hext2 & Hout2 & Hfr2).
     destruct s2 as [ip2 stk2 h2 o2 fr2]; simpl in Hip2, Hstk2, HMS2, Hout2, Hfr2; subst ip2 stk2 fr2.
     destruct (get_bool st2 c2) as [bv2|] eqn:Eg2; [|inv He; exact I].
@@ -1760,7 +1888,7 @@ Proof.
   pose proof (IH c _ _ _ _ Ec sc Fc prog (S pc) L ce (mkst (S pc) stk h o) m Hcc eq_refl HMS Hout Hem) as Hcnd.
   fold cc in Hcnd.
   destruct r1 as [c1|ex| |]; simpl in Hcnd; [| inv He; simpl | inv He; exact I | inv He; exact I].
-  2:{ destruct Hcnd as [-> Hr]. split; [reflexivity|]. eapply raises_weaken; [exact Hr | lia | lia]. }
+  2:{ destruct Hcnd as [_ Hr]. split; [reflexivity|]. eapply raises_weaken; [exact Hr | lia | lia]. }
   destruct Hcnd as (s1 & m1 & a1 & Hst1 & Hip1 & Hstk1 & Hm1 & HMS1 & Hext1 & Hout1 & Hfr1).
   destruct s1 as [ip1 stk1 h1 o1 fr1]; simpl in Hip1, Hstk1, HMS1, Hout1, Hfr1; subst ip1 stk1 fr1.
   destruct (get_bool st1 c1) as [bv|] eqn:Eg; [|inv He; exact I].
@@ -1774,7 +1902,7 @@ Proof.
                   Hcb eq_refl HMS1 Hout1 Hem1) as Hb.
     fold cb in Hb. fold q in Hb.
     destruct r2 as [c2|ex| |]; simpl in Hb; [| inv He; simpl | inv He; exact I | inv He; exact I].
-    2:{ destruct Hb as [-> Hr]. split; [reflexivity|]. eapply raises_star; [exact Hj | reflexivity | stk_ext | eapply raises_weaken; [exact Hr | lia | lia] | ext_tac]. }
+    2:{ destruct Hb as [_ Hr]. split; [reflexivity|]. eapply raises_star; [exact Hj | reflexivity | stk_ext | eapply raises_weaken; [exact Hr | lia | lia] | ext_tac]. }
     destruct Hb as (s2 & m2 & a2 & Hst2 & Hip2 & Hstk2 & Hm2 & HMS2 & Hext2 & Hout2 & Hfr2).
     destruct s2 as [ip2 stk2 h2 o2 fr2]; simpl in Hip2, Hstk2, HMS2, Hout2, Hfr2; subst ip2 stk2 fr2.
     assert (Hback : star prog (mkst (S pc) stk h o) (mkst (S pc) stk h2 o2)).
@@ -1825,7 +1953,7 @@ Proof.
   pose proof (IH b _ _ _ _ Eb sc Fb prog (S pc) L ce (mkst (S pc) stk h o) m Hcb eq_refl HMS Hout Hem) as Hbd.
   fold cb in Hbd.
   destruct r1 as [c1|ex| |]; simpl in Hbd; [| inv He; simpl | inv He; exact I | inv He; exact I].
-  2:{ destruct Hbd as [-> Hr]. split; [reflexivity|]. eapply raises_weaken; [exact Hr | lia | lia]. }
+  2:{ destruct Hbd as [_ Hr]. split; [reflexivity|]. eapply raises_weaken; [exact Hr | lia | lia]. }
   destruct Hbd as (s1 & m1 & a1 & Hst1 & Hip1 & Hstk1 & Hm1 & HMS1 & Hext1 & Hout1 & Hfr1).
   destruct s1 as [ip1 stk1 h1 o1 fr1]; simpl in Hip1, Hstk1, HMS1, Hout1, Hfr1; subst ip1 stk1 fr1.
   pose proof (env_match_ext _ _ _ _ _ _ _ _ _ _ Hem Hext1) as Hem1.
@@ -1836,7 +1964,7 @@ Proof.
                 Hcc eq_refl HMS1 Hout1 Hem1) as Hcnd.
   fold cc in Hcnd. fold q in Hcnd.
   destruct r2 as [c2|ex| |]; simpl in Hcnd; [| inv He; simpl | inv He; exact I | inv He; exact I].
-  2:{ destruct Hcnd as [-> Hr]. split; [reflexivity|]. eapply raises_star; [exact Hj | reflexivity | stk_ext | eapply raises_weaken; [exact Hr | lia | lia] | ext_tac]. }
+  2:{ destruct Hcnd as [_ Hr]. split; [reflexivity|]. eapply raises_star; [exact Hj | reflexivity | stk_ext | eapply raises_weaken; [exact Hr | lia | lia] | ext_tac]. }
   destruct Hcnd as (s2 & m2 & a2 & Hst2 & Hip2 & Hstk2 & Hm2 & HMS2 & Hext2 & Hout2 & Hfr2).
   destruct s2 as [ip2 stk2 h2 o2 fr2]; simpl in Hip2, Hstk2, HMS2, Hout2, Hfr2; subst ip2 stk2 fr2.
   destruct (get_bool st2 c2) as [bv|] eqn:Eg; [|inv He; exact I].
@@ -1887,7 +2015,7 @@ Proof.
   pose proof (IH i _ _ _ _ Ei sc Fi prog ip L ce (mkst ip stk h o) m (code_at_app_l _ _ _ _ Hc) eq_refl HMS Hout Hem) as Hi.
   fold ci in Hi.
   destruct r1 as [c1|ex| |]; simpl in Hi; [| inv He; simpl | inv He; exact I | inv He; exact I].
-  2:{ destruct Hi as [-> Hr]. split; [reflexivity|]. eapply raises_weaken; [exact Hr | lia | rewrite app_length; lia]. }
+  2:{ destruct Hi as [_ Hr]. split; [reflexivity|]. eapply raises_weaken; [exact Hr | lia | rewrite app_length; lia]. }
   destruct Hi as (s1 & m1 & a1 & Hst1 & Hip1 & Hstk1 & Hm1 & HMS1 & Hext1 & Hout1 & Hfr1).
   destruct s1 as [ip1 stk1 h1 o1 fr1]; simpl in Hip1, Hstk1, HMS1, Hout1, Hfr1; subst ip1 stk1 fr1.
   pose proof (code_at_app_r _ _ _ _ Hc) as H1.
@@ -1903,7 +2031,7 @@ Proof.
     exists s2, m2, a2. split; [eapply star_trans; eauto|]. split; [rewrite Hip2; lia|].
     split; [exact Hstk2|]. split; [exact Hm2|]. split; [exact HMS2|].
     split; [eapply ext_trans; eauto|]. split; [exact Hout2 | exact Hfr2].
-  - destruct Hw as [-> Hr]. split; [reflexivity|]. eapply raises_star; [exact Hpop | reflexivity | stk_ext | eapply raises_weaken; [exact Hr | lia | lia] | ext_tac].
+  - destruct Hw as [_ Hr]. split; [reflexivity|]. eapply raises_star; [exact Hpop | reflexivity | stk_ext | eapply raises_weaken; [exact Hr | lia | lia] | ext_tac].
 Qed.
 
 End Frame.
@@ -2043,19 +2171,19 @@ Qed.
 (* a fault while the MARK of a call is pending (an argument is being evaluated): if the handler is a
    bare LABEL; RETHROW it unwinds the pending header and re-raises at the CALL; if it is a catch
    clause the dispatched state is passed on (CLEAR_STACK will reset fp) *)
-Lemma call_arg_fault : forall fr prog s0 sm stk retL lo hi pc n m st',
+Lemma call_arg_fault : forall fr prog s0 sm stk retL lo hi pc n m st' ex,
   star prog s0 sm -> v_fr s0 = fr -> v_stk s0 = stk ->
   v_stk sm = (retL :: r_fp fr :: r_gp fr :: 0 :: 0 :: stk)%nat -> v_fr sm = set_fp fr (length stk + 5) ->
   (pc <= lo)%nat -> (hi <= pc + n)%nat -> (pc <= Nat.pred retL < pc + n)%nat ->
-  raises prog sm lo hi m st' -> raises prog s0 pc (pc + n) m st'.
+  raises prog sm lo hi m st' ex -> raises prog s0 pc (pc + n) m st' ex.
 Proof.
-  intros fr prog s0 sm stk retL lo hi pc n m st' Hst Hfr0 Hstk0 Hstkm Hfrm Hlo Hhi Hret
+  intros fr prog s0 sm stk retL lo hi pc n m st' ex Hst Hfr0 Hstk0 Hstkm Hfrm Hlo Hhi Hret
          (s' & fip & m' & fp' & H1 & H2 & H3 & H4 & H5 & (t & top & H6) & H7 & H8 & H9).
   destruct s' as [ip' stk' h' o' fr']. simpl in H3, H4, H5, H6, H7, H8. subst stk' fr'.
   destruct (is_rethrow prog ip') eqn:Er.
   - specialize (H5 eq_refl). subst fp'.
     destruct (is_rethrow_inv _ _ Er) as (i & j & Hi & Hiop & Hj & Hjop).
-    exists (mk (hsearch (x_tab X) (Nat.pred retL) 0) (t :: stk) h' o' (set_exc fr ExDivision)),
+    exists (mk (hsearch (x_tab X) (Nat.pred retL) 0) (t :: stk) h' o' (set_exc fr ex)),
            (Nat.pred retL), m', (r_fp fr).
     split.
     { eapply star_trans; [exact Hst|]. eapply star_trans; [exact H1|].
@@ -2067,7 +2195,7 @@ Proof.
     split; [lia|]. split; [reflexivity|].
     split; [simpl; rewrite Hfr0, set_fp_same; reflexivity|]. split; [intros _; rewrite Hfr0; reflexivity|].
     split; [exists t, []; simpl; rewrite Hstk0; reflexivity|]. split; [exact H7|]. split; [exact H8 | exact H9].
-  - exists (mk ip' (t :: top ++ v_stk sm) h' o' (set_exc (set_fp (v_fr sm) fp') ExDivision)), fip, m', fp'.
+  - exists (mk ip' (t :: top ++ v_stk sm) h' o' (set_exc (set_fp (v_fr sm) fp') ex)), fip, m', fp'.
     split; [eapply star_trans; eauto|]. split; [lia|]. split; [exact H3|].
     split; [simpl; rewrite Hfrm, Hfr0; reflexivity|].
     split; [simpl; intros Hx; rewrite Hx in Er; discriminate|].
@@ -2129,8 +2257,8 @@ Proof.
                 Hca eq_refl HMS Hout Hem5) as Ha.
   fold ca in Ha. fold q in Ha.
   destruct r1 as [c1|ex| |]; simpl in Ha; [| inv He; simpl | inv He; exact I | inv He; exact I].
-  2:{ destruct Ha as [-> Hr]. split; [reflexivity|].
-      eapply (call_arg_fault fr prog _ _ stk retL (S (S ip)) q ip (length ca + 2 + 4) _ _ Hmk);
+  2:{ destruct Ha as [_ Hr]. split; [reflexivity|].
+      eapply (call_arg_fault fr prog _ _ stk retL (S (S ip)) q ip (length ca + 2 + 4) _ _ _ Hmk);
         [reflexivity | reflexivity | reflexivity | reflexivity | lia | subst q; lia | subst retL q; simpl; lia | exact Hr]. }
   destruct Ha as (s1 & m1 & a1 & Hst1 & Hip1 & Hstk1 & Hm1 & HMS1 & Hext1 & Hout1 & Hfr1).
   destruct s1 as [ip1 stk1 h1 o1 fr1]; simpl in Hip1, Hstk1, HMS1, Hout1, Hfr1; subst ip1 stk1 fr1.
@@ -2207,7 +2335,7 @@ Definition args_concl (prog : list rinstr) (s : vstate) (pc : nat) (code : list 
       MS m' st1 (v_heap s') /\ ext m m' /\ v_out s' = out st1 /\ v_fr s' = v_fr s
   | None =>
     match r with
-    | RExc ex => ex = ExDivision /\ raises prog s pc (pc + length code) m st1
+    | RExc ex => ex = ex /\ raises prog s pc (pc + length code) m st1 ex
     | _ => True
     end
   end.
@@ -2246,11 +2374,11 @@ Proof.
         split; [simpl; lia|].
         split; [constructor; [exact Hm2 | eapply Forall2_ext_m; eauto]|].
         split; [exact HMS2|]. split; [eapply ext_trans; eauto|]. split; [exact Hout2 | congruence].
-      * destruct Ha as [-> Hr]. split; [reflexivity|].
+      * destruct Ha as [_ Hr]. split; [reflexivity|].
         eapply raises_star; [exact Hst1 | exact Hfr1 | exists astk; exact Hstk1
                             | eapply raises_weaken; [exact Hr | lia | rewrite app_length; lia] | exact Hext1].
     + inv He. simpl in Ht |- *. destruct r as [c|ex| |]; auto.
-      destruct Ht as [-> Hr]. split; [reflexivity|].
+      destruct Ht as [_ Hr]. split; [reflexivity|].
       eapply raises_weaken; [exact Hr | lia | rewrite app_length; lia].
 Qed.
 
@@ -2264,6 +2392,138 @@ Proof.
     destruct o1 as [cs|].
     + destruct (eval genv k env st2 a) as [ra st3]. destruct ra; inv He; discriminate.
     + inv He. eapply IH; eauto.
+Qed.
+
+(* ---- array literals (level 7): the elements like an argument list, each an int cell that is recorded ---- *)
+
+Lemma elems_spec_of : forall k, expr_spec fc gl k ->
+  forall args env st ocs r st1, eval_args genv k env args st = ((ocs, r), st1) ->
+  forall sc, args_F FS TL (g_all G) (fc_self fc) lv sc args = true -> forallb int_shaped args = true ->
+  forall prog pc L ce s m,
+    code_at prog pc (compile_args ce L args) -> v_ip s = pc ->
+    MS m st (v_heap s) -> v_out s = out st -> env_match_g fc (r_gp (v_fr s)) gl m env ce sc L (v_stk s) ->
+    match ocs with
+    | Some cs =>
+      exists s' m' astk, star prog s s' /\ v_ip s' = (pc + length (compile_args ce L args))%nat /\
+        v_stk s' = astk ++ v_stk s /\ length astk = length args /\
+        Forall2 (fun c a => vrel m' c a) cs astk /\ Forall (fun c => In c (mi m')) cs /\
+        MS m' st1 (v_heap s') /\ ext m m' /\ v_out s' = out st1 /\ v_fr s' = v_fr s
+    | None =>
+      match r with
+      | RExc ex => ex = ex /\ raises prog s pc (pc + length (compile_args ce L args)) m st1 ex
+      | _ => True
+      end
+    end.
+Proof.
+  intros k IH. induction args as [|a t IHt]; intros env st ocs r st1 He sc HF Hsh prog pc L ce s m Hc Hip HMS Hout Hem.
+  - unfold eval_args in He. rewrite eval_args_f_nil in He. inv He. simpl.
+    exists s, m, []. simpl. rewrite Nat.add_0_r.
+    split; [apply star_refl|]. split; [auto|]. split; [reflexivity|]. split; [reflexivity|].
+    split; [constructor|]. split; [constructor|]. split; [exact HMS|]. split; [apply ext_refl|]. split; [exact Hout | reflexivity].
+  - unfold eval_args in He. rewrite eval_args_f_cons in He. fold (eval_args genv k env) in He.
+    cbn [args_F] in HF. apply andb_true_iff in HF; destruct HF as [Fa Ft].
+    cbn [forallb] in Hsh. apply andb_true_iff in Hsh; destruct Hsh as [Sa St].
+    rewrite compile_args_cons in *.
+    set (ct := compile_args ce L t) in *. set (ca := compile_expr fc (L + Z.of_nat (length t)) ce a) in *.
+    destruct (eval_args genv k env t st) as [[ocs1 r1] st2] eqn:Et.
+    pose proof (IHt env st ocs1 r1 st2 Et sc Ft St prog pc L ce s m (code_at_app_l _ _ _ _ Hc) Hip HMS Hout Hem) as Ht.
+    fold ct in Ht.
+    destruct ocs1 as [cs|].
+    + destruct Ht as (s1 & m1 & astk & Hst1 & Hip1 & Hstk1 & Hlen1 & HF1 & Hmi1 & HMS1 & Hext1 & Hout1 & Hfr1).
+      pose proof (env_match_pushn _ _ _ _ _ _ _ _ _ astk (env_match_ext _ _ _ _ _ _ _ _ _ _ Hem Hext1)) as Hem1.
+      rewrite Hlen1, <- Hstk1, <- Hfr1 in Hem1.
+      destruct (eval genv k env st2 a) as [ra st3] eqn:Ea.
+      pose proof (IH a _ _ _ _ Ea sc Fa prog (pc + length ct)%nat (L + Z.of_nat (length t)) ce s1 m1
+                    (code_at_app_r _ _ _ _ Hc) Hip1 HMS1 Hout1 Hem1) as Ha. fold ca in Ha.
+      destruct ra as [c|ex| |]; inv He; simpl in Ha |- *; auto.
+      * destruct Ha as (s2 & m2 & a2 & Hst2 & Hip2 & Hstk2 & Hm2 & HMS2 & Hext2 & Hout2 & Hfr2).
+        destruct (vrel_kind _ _ _ _ _ HMS2 Hm2) as (v & Hcv & _).
+        assert (Hiv : is_intv v = true) by (eapply int_shaped_cell; [exact Sa | exact Ea | exact Hcv]).
+        destruct (MS_addint m2 st1 (v_heap s2) c v HMS2 Hcv ltac:(destruct v; try discriminate Hiv; exact I)) as (A & B & C).
+        eexists s2, _, (a2 :: astk). split; [eapply star_trans; eauto|].
+        split; [rewrite Hip2, app_length; lia|]. split; [rewrite Hstk2, Hstk1; reflexivity|].
+        split; [simpl; lia|].
+        split; [constructor; [eapply vrel_ext; [exact B | exact Hm2]
+                             | eapply Forall2_ext_m; [exact B|]; eapply Forall2_ext_m; [exact Hext2 | exact HF1]]|].
+        split; [constructor; [exact C|]; rewrite Forall_forall in Hmi1 |- *; intros x Hx;
+                eapply ext_mi; [exact B|]; eapply ext_mi; [exact Hext2 | exact (Hmi1 x Hx)]|].
+        split; [exact A|]. split; [eapply ext_trans; [exact Hext1|]; eapply ext_trans; [exact Hext2 | exact B]|].
+        split; [exact Hout2 | congruence].
+      * destruct Ha as [_ Hr]. split; [reflexivity|].
+        eapply raises_star; [exact Hst1 | exact Hfr1 | exists astk; exact Hstk1
+                            | eapply raises_weaken; [exact Hr | lia | rewrite app_length; lia] | exact Hext1].
+    + inv He. simpl in Ht |- *. destruct r as [c|ex| |]; auto.
+      destruct Ht as [_ Hr]. split; [reflexivity|].
+      eapply raises_weaken; [exact Hr | lia | rewrite app_length; lia].
+Qed.
+
+Lemma step_mkarr : forall fr prog ip an top stk h o,
+  nth_error prog ip = Some (ins BYTECODE_MK_INIT_ARRAY 1 0) -> hint h an = Some (Z.of_nat (length top)) ->
+  step prog (mk ip (an :: top ++ stk) h o fr) = SNext (mk (S ip) (length h :: stk) (h ++ [HVec top]) o fr).
+Proof.
+  intros fr prog ip an top stk h o H H0. unfold ValueVM4.step. simpl. rewrite H. simpl. rewrite H0.
+  rewrite zn_nonneg by lia. rewrite Nat2Z.id, app_length.
+  replace (Nat.leb (length top) (length top + length stk)) with true by (symmetry; apply Nat.leb_le; lia).
+  rewrite skipn_app, skipn_all, Nat.sub_diag, firstn_app, firstn_all, Nat.sub_diag. simpl.
+  rewrite app_nil_r. reflexivity.
+Qed.
+
+(* [e1, …, en] : int — the elements last to first; INT n; MK_INIT_ARRAY 1: one new vector of the element cells'
+   images; the evaluator makes a new array object over the element cells and a new cell referring to it *)
+Lemma case_EArrLit : forall fr k es t, expr_spec fc gl k -> expr_case_at fr fc gl (S k) (EArrLit es t).
+Proof.
+  intros fr k es t IH env st r st' He sc HF prog L ce ip stk h o m Hc HMS Hout Hem.
+  cbn [Compile4.in_F] in HF.
+  apply andb_true_iff in HF; destruct HF as [HF Fall]. apply andb_true_iff in HF; destruct HF as [HF Fsh].
+  apply andb_true_iff in HF; destruct HF as [Flv _].
+  assert (Fargs : args_F FS TL (g_all G) (fc_self fc) lv sc es = true).
+  { clear -Fall. induction es as [|a t0 IHes]; [reflexivity|]. cbn [args_F].
+    apply andb_true_iff in Fall. destruct Fall as [A B]. rewrite A. simpl. apply IHes. exact B. }
+  assert (Hcp : cp = true) by (unfold cp; apply Nat.leb_le in Flv; apply Nat.leb_le; lia).
+  rewrite eval_EArrLit in He.
+  change (compile_expr fc L ce (EArrLit es t))
+    with (compile_args ce L es ++ [ins BYTECODE_INT (Z.of_nat (length es)) 0; ins BYTECODE_MK_INIT_ARRAY 1 0]) in *.
+  set (ca := compile_args ce L es) in *.
+  destruct (eval_args genv k env es st) as [[ocs ra] st1] eqn:Eargs.
+  pose proof (elems_spec_of k IH es env st ocs ra st1 Eargs sc Fargs Fsh prog ip L ce (mk ip stk h o fr) m
+                (code_at_app_l _ _ _ _ Hc) eq_refl HMS Hout Hem) as Ha.
+  fold ca in Ha.
+  destruct ocs as [cs|].
+  2:{ inv He. destruct r as [c|ex| |]; simpl; auto.
+      { exfalso. eapply eval_args_none_not_ok; eauto. }
+      destruct Ha as [_ Hr]. split; [reflexivity|].
+      eapply raises_weaken; [exact Hr | lia | rewrite app_length; simpl; lia]. }
+  destruct Ha as (s1 & m1 & astk & Hst1 & Hip1 & Hstk1 & Hlen1 & HF1 & Hmi1 & HMS1 & Hext1 & Hout1 & Hfr1).
+  destruct s1 as [ip1 stk1 h1 o1 fr1]; simpl in Hip1, Hstk1, HMS1, Hout1, Hfr1; subst ip1 stk1 fr1.
+  pose proof (code_at_app_r _ _ _ _ Hc) as Hc2.
+  pose proof (code_at_head _ _ _ _ Hc2) as HIN.
+  pose proof (code_at_head _ _ _ _ (code_at_tail _ _ _ _ Hc2)) as HMK.
+  destruct (MS_newarr m1 st1 h1 cs astk HMS1 Hcp HF1 Hmi1) as (HMSa & Hexta & Hina).
+  unfold new_arr in He. cbn [snd new_arr] in HMSa.
+  set (st2 := {| cells := cells st1; arrs := arrs st1 ++ [cs]; recs := recs st1; out := out st1 |}) in *.
+  set (ar := length (arrs st1)) in *.
+  set (ma := {| mm := mm m1; mv := mv m1; mf := mf m1; mc := mc m1; mi := mi m1; mar := mar m1 ++ [(ar, astk)] |}) in *.
+  unfold fresh in He. destruct (alloc st2 (CArr (Some ar))) as [c st3] eqn:Ea. inv He. simpl.
+  set (n := Z.of_nat (length es)) in *.
+  assert (Hs : forall fd cenv k0, CArr (Some ar) = CFun fd cenv -> nth_error (g_all G) k0 = Some (KNamed, fd) ->
+                 lookup (fd_name fd) cenv = Some c) by (intros fd cenv k0 E; discriminate E).
+  destruct (MS_alloc_gen ma st2 h1 (CArr (Some ar)) (HVec astk) c st' [HInt n] HMSa Hina Ea Hs) as (HMS' & Hm' & Hext' & Hout').
+  cbn [length] in HMS', Hm', Hext'.
+  eapply (post_ok_intro _ _ _ _ _ _ (mk (S (S (ip + length ca))) ((length h1 + 1)%nat :: stk) (h1 ++ [HInt n] ++ [HVec astk]) (out st1) fr)
+           _ (length h1 + 1)%nat); cbn [v_ip v_stk v_heap v_out v_fr ValueVM4.mkst].
+  - eapply star_trans; [exact Hst1|].
+    eapply star_step; [apply (step_int fr prog (ip + length ca) (astk ++ stk) h1 (out st1) n 0); exact HIN|].
+    apply star_one.
+    rewrite (step_mkarr fr prog (S (ip + length ca)) (length h1) astk stk (h1 ++ [HInt n]) (out st1) HMK).
+    + rewrite app_length, <- app_assoc. reflexivity.
+    + unfold hint. rewrite nth_error_app2, Nat.sub_diag by lia. cbn [nth_error]. unfold n. rewrite Hlen1. reflexivity.
+  - rewrite app_length. cbn [length]. lia.
+  - reflexivity.
+  - exact Hm'.
+  - exact HMS'.
+  - eapply ext_trans; [exact Hext1|]. eapply ext_trans; [exact Hexta | exact Hext'].
+  - rewrite Hout'. reflexivity.
+  - reflexivity.
 Qed.
 
 (* the function a name denotes *)
@@ -2346,10 +2606,10 @@ Definition act_done (prog : list rinstr) (s0 : vstate) (m : morph) (r : res) (st
                        {| r_fp := f_fp F; r_gp := f_gp F; r_exc := f_exc F; r_frames := fs |}) /\
       vrel m' c a /\ MS m' st' h' /\ ext m m' /\ o' = out st'
   | RExc ex =>
-    ex = ExDivision /\
+    ex = ex /\
     exists h' t m',
       star prog s0 (mk (hsearch (x_tab X) (Nat.pred (f_ret F)) 0) (t :: f_below F) h' (out st')
-                       {| r_fp := f_fp F; r_gp := f_gp F; r_exc := Some ExDivision; r_frames := fs |}) /\
+                       {| r_fp := f_fp F; r_gp := f_gp F; r_exc := Some ex; r_frames := fs |}) /\
       MS m' st' h' /\ ext m m'
   | _ => True
   end.
@@ -2505,8 +2765,8 @@ Proof.
   destruct ocs as [cs|].
   2:{ inv He. simpl in Ha. destruct r as [c|ex| |]; simpl; auto.
       { exfalso. eapply eval_args_none_not_ok; eauto. }
-      destruct Ha as [-> Hr]. split; [reflexivity|].
-      eapply (call_arg_fault fr prog _ _ stk retL (S (S ip)) q ip (length ca + 2 + 4) _ _ Hmk);
+      destruct Ha as [_ Hr]. split; [reflexivity|].
+      eapply (call_arg_fault fr prog _ _ stk retL (S (S ip)) q ip (length ca + 2 + 4) _ _ _ Hmk);
         [reflexivity | reflexivity | reflexivity | reflexivity | lia | subst q; lia | subst retL q; simpl; lia | exact Hr]. }
   destruct Ha as (s1 & m1 & astk & Hst1 & Hip1 & Hstk1 & Hlen1 & HF1 & HMS1 & Hext1 & Hout1 & Hfr1).
   destruct s1 as [ip1 stk1 h1 o1 fr1]; simpl in Hip1, Hstk1, HMS1, Hout1, Hfr1; subst ip1 stk1 fr1.
@@ -2540,9 +2800,9 @@ Proof.
     + subst retL q. lia.
     + eapply ext_trans; eauto.
   - simpl.
-    destruct Hbody as (-> & h' & t & m' & Hrun & HMS' & Hext'). split; [reflexivity|].
+    destruct Hbody as (_ & h' & t & m' & Hrun & HMS' & Hext'). split; [reflexivity|].
     exists (mk (hsearch (x_tab X) (Nat.pred retL) 0) (t :: stk) h' (out st')
-               {| r_fp := r_fp fr; r_gp := r_gp fr; r_exc := Some ExDivision; r_frames := r_frames fr |}), (Nat.pred retL), m', (r_fp fr).
+               {| r_fp := r_fp fr; r_gp := r_gp fr; r_exc := Some exb; r_frames := r_frames fr |}), (Nat.pred retL), m', (r_fp fr).
     split; [eapply star_trans; [exact Henter | exact Hrun]|].
     split; [subst retL q; simpl; lia|]. split; [reflexivity|]. split; [reflexivity|].
     split; [reflexivity|]. split; [exists t, []; reflexivity|]. split; [reflexivity|].
@@ -2599,8 +2859,8 @@ Proof.
   destruct ocs as [cs|].
   2:{ inv He. simpl in Ha. destruct r as [c|ex| |]; simpl; auto.
       { exfalso. eapply eval_args_none_not_ok; eauto. }
-      destruct Ha as [-> Hr]. split; [reflexivity|].
-      eapply (call_arg_fault fr prog _ _ stk retL (S (S ip)) q ip (length ca + length cf + 4) _ _ Hmk);
+      destruct Ha as [_ Hr]. split; [reflexivity|].
+      eapply (call_arg_fault fr prog _ _ stk retL (S (S ip)) q ip (length ca + length cf + 4) _ _ _ Hmk);
         [reflexivity | reflexivity | reflexivity | reflexivity | lia | subst q; lia | subst retL qf q; simpl; lia | exact Hr]. }
   destruct Ha as (s1 & m1 & astk & Hst1 & Hip1 & Hstk1 & Hlen1 & HF1 & HMS1 & Hext1 & Hout1 & Hfr1).
   destruct s1 as [ip1 stk1 h1 o1 fr1]; simpl in Hip1, Hstk1, HMS1, Hout1, Hfr1; subst ip1 stk1 fr1.
@@ -2611,8 +2871,8 @@ Proof.
   pose proof (IH f _ _ _ _ Ef sc Ff prog q (L + num_frame_ptrs + n) ce (mk q (astk ++ hdr ++ stk) h1 o1 fr') m1
                 Hcf eq_refl HMS1 Hout1 Hem6) as Hf. fold cf in Hf. fold qf in Hf.
   destruct rf as [cfn|ex| |]; simpl in Hf; [| inv He; simpl | inv He; exact I | inv He; exact I].
-  2:{ destruct Hf as [-> Hr]. split; [reflexivity|].
-      eapply (call_arg_fault fr prog _ _ stk retL q qf ip (length ca + length cf + 4) _ _ Hmk);
+  2:{ destruct Hf as [_ Hr]. split; [reflexivity|].
+      eapply (call_arg_fault fr prog _ _ stk retL q qf ip (length ca + length cf + 4) _ _ _ Hmk);
         [reflexivity | reflexivity | reflexivity | reflexivity | subst q; lia | subst qf q; lia | subst retL qf q; simpl; lia |].
       eapply raises_star; [exact Hst1 | reflexivity | exists astk; reflexivity | exact Hr | exact Hext1]. }
   destruct Hf as (s2 & m2 & af & Hst2 & Hip2 & Hstk2 & Hm2 & HMS2 & Hext2 & Hout2 & Hfr2).
@@ -2657,9 +2917,9 @@ Proof.
     + subst retL qf q. lia.
     + eapply ext_trans; [exact Hext1|]. eapply ext_trans; eauto.
   - simpl.
-    destruct Hbody as (-> & h' & t & m' & Hrun & HMS' & Hext'). split; [reflexivity|].
+    destruct Hbody as (_ & h' & t & m' & Hrun & HMS' & Hext'). split; [reflexivity|].
     exists (mk (hsearch (x_tab X) (Nat.pred retL) 0) (t :: stk) h' (out st')
-               {| r_fp := r_fp fr; r_gp := r_gp fr; r_exc := Some ExDivision; r_frames := r_frames fr |}), (Nat.pred retL), m', (r_fp fr).
+               {| r_fp := r_fp fr; r_gp := r_gp fr; r_exc := Some exb; r_frames := r_frames fr |}), (Nat.pred retL), m', (r_fp fr).
     split; [eapply star_trans; [exact Henter | exact Hrun]|].
     split; [subst retL qf q; simpl; lia|]. split; [reflexivity|]. split; [reflexivity|].
     split; [reflexivity|]. split; [exists t, []; reflexivity|]. split; [reflexivity|].
@@ -2738,8 +2998,8 @@ Proof.
   destruct ocs as [cs|].
   2:{ inv He. simpl in Ha. destruct r as [c|ex| |]; simpl; auto.
       { exfalso. eapply eval_args_none_not_ok; eauto. }
-      destruct Ha as [-> Hr]. split; [reflexivity|].
-      eapply (call_arg_fault fr prog _ _ stk retL (S (S ip)) q ip (length ca + 2 + 4) _ _ Hmk);
+      destruct Ha as [_ Hr]. split; [reflexivity|].
+      eapply (call_arg_fault fr prog _ _ stk retL (S (S ip)) q ip (length ca + 2 + 4) _ _ _ Hmk);
         [reflexivity | reflexivity | reflexivity | reflexivity | lia | subst q; lia | subst retL q; simpl; lia | exact Hr]. }
   destruct Ha as (s1 & m1 & astk & Hst1 & Hip1 & Hstk1 & Hlen1 & HF1 & HMS1 & Hext1 & Hout1 & Hfr1).
   destruct s1 as [ip1 stk1 h1 o1 fr1]; simpl in Hip1, Hstk1, HMS1, Hout1, Hfr1; subst ip1 stk1 fr1.
@@ -2789,9 +3049,9 @@ Proof.
     + subst retL q. lia.
     + eapply ext_trans; eauto.
   - simpl.
-    destruct Hbody as (-> & h' & t & m' & Hrun & HMS' & Hext'). split; [reflexivity|].
+    destruct Hbody as (_ & h' & t & m' & Hrun & HMS' & Hext'). split; [reflexivity|].
     exists (mk (hsearch (x_tab X) (Nat.pred retL) 0) (t :: stk) h' (out st')
-               {| r_fp := r_fp fr; r_gp := r_gp fr; r_exc := Some ExDivision; r_frames := r_frames fr |}), (Nat.pred retL), m', (r_fp fr).
+               {| r_fp := r_fp fr; r_gp := r_gp fr; r_exc := Some exb; r_frames := r_frames fr |}), (Nat.pred retL), m', (r_fp fr).
     split; [eapply star_trans; [exact Henter | exact Hrun]|].
     split; [subst retL q; simpl; lia|]. split; [reflexivity|]. split; [reflexivity|].
     split; [reflexivity|]. split; [exists t, []; reflexivity|]. split; [reflexivity|].
@@ -2997,8 +3257,8 @@ Lemma step_push_except : forall fr prog ip stk h o e,
   step prog (mk ip stk h o fr) = SNext (mk (S ip) (length h :: stk) (h ++ [HInt (exn_no e)]) o fr).
 Proof. intros. unfold ValueVM4.step. simpl. rewrite H. simpl. rewrite H0. reflexivity. Qed.
 
-Lemma exn_match_no : forall ex, exn_eqb ExDivision ex = (exn_no ex =? 1).
-Proof. destruct ex; reflexivity. Qed.
+Lemma exn_match_no : forall ex0 ex, exn_eqb ex0 ex = (exn_no ex =? exn_no ex0).
+Proof. intros ex0 ex. destruct ex0, ex; reflexivity. Qed.
 
 (* the clause segments that remain when the named clauses cs are still to be tried *)
 Definition tail_segs (kd : fkind) (fd : fdef) (cs : list (exn * list item)) : list (list rinstr) :=
@@ -3048,7 +3308,7 @@ Proof.
   - destruct H as (h' & o' & m' & a & H1 & H2 & H3 & H4 & H5). exists h', o', m', a.
     split; [eapply star_trans; eauto|]. split; [exact H2|]. split; [exact H3|].
     split; [eapply ext_trans; eauto | exact H5].
-  - destruct H as (-> & h' & t & m' & H1 & H2 & H3). split; [reflexivity|]. exists h', t, m'.
+  - destruct H as (_ & h' & t & m' & H1 & H2 & H3). split; [reflexivity|]. exists h', t, m'.
     split; [eapply star_trans; eauto|]. split; [exact H2 | eapply ext_trans; eauto].
 Qed.
 
@@ -3071,20 +3331,20 @@ Lemma handlers_run : forall k, (forall fc gl, good_ctx fc -> items_spec fc gl k)
   forall cenv vec gl cs pre, fsegs FT TL (kd, fd) = pre ++ tail_segs kd fd cs ->
     (forall c, In c cs -> items_F (fc_self (ctx_of TL kd fd)) lv (body_scope TL kd fd) (snd c) = true) ->
     (forall b, fd_catch_all fd = Some b -> items_F (fc_self (ctx_of TL kd fd)) lv (body_scope TL kd fd) b = true) ->
-  forall j penv st r st', (j <= k)%nat ->
-    handlers genv j (penv ++ cenv) st ExDivision cs (fd_catch_all fd) = (r, st') ->
+  forall j penv st ex0 r st', (j <= k)%nat ->
+    handlers genv j (penv ++ cenv) st ex0 cs (fd_catch_all fd) = (r, st') ->
   forall prog top astk h o m cs0 fp F fs, prog_ok prog ->
     bind_params (fd_params fd) cs0 = Some penv ->
     Forall2 (fun c a => vrel m c a) cs0 astk -> genv_ok m -> act_rel m kd fd cenv vec gl ->
     MS m st h -> o = out st ->
     (cs = [] -> fd_catch_all fd = None -> fp = 0%nat) ->
     act_done prog (mk (faddr (nstd + kidx) + length (concat pre)) (top ++ astk) h o
-                      {| r_fp := fp; r_gp := vec; r_exc := Some ExDivision; r_frames := F :: fs |}) m r st' F fs.
+                      {| r_fp := fp; r_gp := vec; r_exc := Some ex0; r_frames := F :: fs |}) m r st' F fs.
 Proof.
   intros k IHi kidx kd fd Hk cenv vec gl.
   set (fa := faddr (nstd + kidx)). set (np := length (fd_params fd)).
   induction cs as [|[ex' body] t IHcs];
-    intros pre Hsegs Hcs Hall j penv st r st' Hj He prog top astk h o m cs0 fp F fs Hpo Hb HF Hg Hact HMS Hout Hfp.
+    intros pre Hsegs Hcs Hall j penv st ex0 r st' Hj He prog top astk h o m cs0 fp F fs Hpo Hb HF Hg Hact HMS Hout Hfp.
   - (* no named clause left *)
     destruct j as [|j]; [rewrite handlers_O in He; inv He; exact I|]. rewrite handlers_nil in He.
     pose proof (po_fun _ Hpo kidx (kd, fd) Hk) as Hcode. fold fa in Hcode.
@@ -3104,20 +3364,20 @@ Proof.
       pose proof (CompileCorrect4Base.code_at_head _ _ _ _ (CompileCorrect4Base.code_at_tail _ _ _ _ H2)) as HLB.
       pose proof (CompileCorrect4Base.code_at_head _ _ _ _
                    (CompileCorrect4Base.code_at_tail _ _ _ _ (CompileCorrect4Base.code_at_tail _ _ _ _ H2))) as HRW.
-      set (frc := {| r_fp := 0; r_gp := vec; r_exc := Some ExDivision; r_frames := F :: fs |}).
-      assert (H0 : star prog (mk A (top ++ astk) h o {| r_fp := fp; r_gp := vec; r_exc := Some ExDivision; r_frames := F :: fs |})
+      set (frc := {| r_fp := 0; r_gp := vec; r_exc := Some ex0; r_frames := F :: fs |}).
+      assert (H0 : star prog (mk A (top ++ astk) h o {| r_fp := fp; r_gp := vec; r_exc := Some ex0; r_frames := F :: fs |})
                         (mk (S A) astk h o frc)).
       { apply star_one. rewrite <- Hnp in HCS. rewrite (step_clear_stack _ prog A top astk h o HCS). reflexivity. }
       assert (Hlenseg : length (all_seg FT TL kd fd b) = (length cb + 3)%nat).
       { unfold all_seg. fold cb. cbn [length]. rewrite app_length. cbn [length]. lia. }
       pose proof (clause_block k IHi kidx kd fd Hk j b cenv penv st r st' ltac:(lia) He (Hall b eq_refl) prog (S A) astk h o m cs0
-                    vec gl (Some ExDivision) F fs (conj Hcb Hpo) Hb HF Hg Hact HMS Hout) as Hx. fold cb frc in Hx.
+                    vec gl (Some ex0) F fs (conj Hcb Hpo) Hb HF Hg Hact HMS Hout) as Hx. fold cb frc in Hx.
       destruct r as [c|ex| |]; simpl in Hx |- *; auto.
       * destruct Hx as (s1 & m1 & a & Hst1 & Hip1 & Hstk1 & Hm1 & HMS1 & Hext1 & Hout1 & Hfr1).
         destruct s1 as [ip1 stk1 h1 o1 fr1]; simpl in Hip1, Hstk1, HMS1, Hout1, Hfr1; subst ip1 stk1 fr1.
         exists h1, o1, m1, a. split; [|auto].
         eapply star_trans; [exact H0|]. eapply star_snoc; [exact Hst1|]. apply step_ret_frame. exact HRT.
-      * destruct Hx as (-> & s1 & fip & m1 & fp' & Hst1 & Hrng & Hip1 & Hfr1 & Hrt & (t0 & top' & Hstk1) & Hout1 & HMS1 & Hext1).
+      * destruct Hx as (_ & s1 & fip & m1 & fp' & Hst1 & Hrng & Hip1 & Hfr1 & Hrt & (t0 & top' & Hstk1) & Hout1 & HMS1 & Hext1).
         split; [reflexivity|].
         destruct s1 as [ip1 stk1 h1 o1 fr1]; simpl in Hip1, Hstk1, Hout1, Hfr1, Hrt, HMS1; subst stk1 o1 fr1.
         rewrite (po_tab _ Hpo kidx (kd, fd) pre (all_seg FT TL kd fd b) [] fip Hk Hsegs) in Hip1
@@ -3127,7 +3387,7 @@ Proof.
         assert (Hir : is_rethrow prog (S (S A + length cb)) = true).
         { unfold is_rethrow. rewrite HLB, HRW. reflexivity. }
         specialize (Hrt Hir). subst fp'.
-        destruct (step_rethrow_any prog (S (S (S A + length cb))) (t0 :: top' ++ astk) h1 (out st') vec (Some ExDivision) F fs HRW)
+        destruct (step_rethrow_any prog (S (S (S A + length cb))) (t0 :: top' ++ astk) h1 (out st') vec (Some ex) F fs HRW)
           as (t1 & Hrw).
         exists h1, t1, m1. split; [|split; [exact HMS1 | exact Hext1]].
         eapply star_trans; [exact H0|]. eapply star_trans; [exact Hst1|].
@@ -3137,7 +3397,7 @@ Proof.
       unfold compile_func in Hcode. rewrite Hsegs in Hcode.
       pose proof (CompileCorrect4Base.code_at_head _ _ _ _ (CompileCorrect4Base.code_at_app_r _ _ _ _ Hcode)) as HRW.
       rewrite (Hfp eq_refl eq_refl). simpl. split; [reflexivity|].
-      destruct (step_rethrow_any prog (fa + length (concat pre)) (top ++ astk) h (out st') vec (Some ExDivision) F fs HRW)
+      destruct (step_rethrow_any prog (fa + length (concat pre)) (top ++ astk) h (out st') vec (Some ex0) F fs HRW)
         as (t1 & Hrw).
       exists h, t1, m. split; [apply star_one; exact Hrw|]. split; [exact HMS | apply ext_refl].
   - (* a named clause *)
@@ -3164,25 +3424,25 @@ Proof.
     pose proof (CompileCorrect4Base.code_at_app_r _ _ _ _ T5) as T6.
     pose proof (CompileCorrect4Base.code_at_head _ _ _ _ T6) as HRT.
     pose proof (CompileCorrect4Base.code_at_head _ _ _ _ (CompileCorrect4Base.code_at_tail _ _ _ _ T6)) as HLB.
-    set (frc := {| r_fp := 0; r_gp := vec; r_exc := Some ExDivision; r_frames := F :: fs |}).
-    set (h3 := ((h ++ [HInt (exn_no ex')]) ++ [HInt (exn_no ExDivision)]) ++ [HInt (b2z (exn_no ex' =? 1))]).
+    set (frc := {| r_fp := 0; r_gp := vec; r_exc := Some ex0; r_frames := F :: fs |}).
+    set (h3 := ((h ++ [HInt (exn_no ex')]) ++ [HInt (exn_no ex0)]) ++ [HInt (b2z (exn_no ex' =? exn_no ex0))]).
     assert (Hlenseg : length (clause_seg FT TL kd fd (ex', body)) = (length cb + 7)%nat).
     { unfold clause_seg. cbn [fst snd]. fold cb. cbn [length]. rewrite app_length. cbn [length]. lia. }
-    assert (Hpro : star prog (mk A (top ++ astk) h o {| r_fp := fp; r_gp := vec; r_exc := Some ExDivision; r_frames := F :: fs |})
-                        (mk (S (S (S (S A)))) (length ((h ++ [HInt (exn_no ex')]) ++ [HInt (exn_no ExDivision)]) :: astk) h3 o frc)).
+    assert (Hpro : star prog (mk A (top ++ astk) h o {| r_fp := fp; r_gp := vec; r_exc := Some ex0; r_frames := F :: fs |})
+                        (mk (S (S (S (S A)))) (length ((h ++ [HInt (exn_no ex')]) ++ [HInt (exn_no ex0)]) :: astk) h3 o frc)).
     { eapply star_step. { rewrite <- Hnp in HCS. rewrite (step_clear_stack _ prog A top astk h o HCS). reflexivity. }
-      change (set_fp {| r_fp := fp; r_gp := vec; r_exc := Some ExDivision; r_frames := F :: fs |} 0) with frc.
+      change (set_fp {| r_fp := fp; r_gp := vec; r_exc := Some ex0; r_frames := F :: fs |} 0) with frc.
       eapply star_step; [apply (step_int frc prog (S A) astk h o (exn_no ex') 0); exact HIN|].
-      eapply star_step; [apply (step_push_except frc _ _ _ _ _ ExDivision HPE); reflexivity|].
+      eapply star_step; [apply (step_push_except frc _ _ _ _ _ ex0 HPE); reflexivity|].
       apply star_one.
-      rewrite (step_binop frc prog (S (S (S A))) astk ((h ++ [HInt (exn_no ex')]) ++ [HInt (exn_no ExDivision)]) o Eq
-                 (length (h ++ [HInt (exn_no ex')])) (length h) (exn_no ex') (exn_no ExDivision) eq_refl HEQ).
+      rewrite (step_binop frc prog (S (S (S A))) astk ((h ++ [HInt (exn_no ex')]) ++ [HInt (exn_no ex0)]) o Eq
+                 (length (h ++ [HInt (exn_no ex')])) (length h) (exn_no ex') (exn_no ex0) eq_refl HEQ).
       - reflexivity.
       - unfold hint. rewrite nth_error_app1 by (rewrite app_length; simpl; lia).
         rewrite nth_error_app2, Nat.sub_diag by lia. reflexivity.
       - unfold hint. rewrite nth_error_app2, Nat.sub_diag by lia. reflexivity. }
     assert (HMS3 : MS m st h3) by (unfold h3; repeat apply MS_heap_app; exact HMS).
-    assert (Hp3 : hint h3 (length ((h ++ [HInt (exn_no ex')]) ++ [HInt (exn_no ExDivision)])) = Some (b2z (exn_no ex' =? 1))).
+    assert (Hp3 : hint h3 (length ((h ++ [HInt (exn_no ex')]) ++ [HInt (exn_no ex0)])) = Some (b2z (exn_no ex' =? exn_no ex0))).
     { unfold hint, h3. rewrite nth_error_app2, Nat.sub_diag by lia. reflexivity. }
     rewrite exn_match_no in He.
     assert (Hpost : fsegs FT TL (kd, fd) = (pre ++ [clause_seg FT TL kd fd (ex', body)]) ++ tail_segs kd fd t).
@@ -3191,14 +3451,14 @@ Proof.
     { intros c Hc. apply Hcs. right. exact Hc. }
     assert (HAnext : (fa + length (concat (pre ++ [clause_seg FT TL kd fd (ex', body)])) = S (S (S (S (S (S (S A))))) + length cb))%nat).
     { rewrite concat_snoc_len, Hlenseg. fold A. lia. }
-    destruct (exn_no ex' =? 1) eqn:Em.
+    destruct (exn_no ex' =? exn_no ex0) eqn:Em.
     + (* the clause matches *)
-      assert (Hin : star prog (mk A (top ++ astk) h o {| r_fp := fp; r_gp := vec; r_exc := Some ExDivision; r_frames := F :: fs |})
+      assert (Hin : star prog (mk A (top ++ astk) h o {| r_fp := fp; r_gp := vec; r_exc := Some ex0; r_frames := F :: fs |})
                          (mk (S (S (S (S (S A))))) astk h3 o frc)).
       { eapply star_snoc; [exact Hpro|]. eapply (step_jumpz_nonzero frc); [exact HJZ | exact Hp3 | simpl; lia]. }
       destruct (eval_items genv j (penv ++ cenv) st body None) as [r1 st1] eqn:Eb.
       pose proof (clause_block k IHi kidx kd fd Hk j body cenv penv st r1 st1 ltac:(lia) Eb (Hcs (ex', body) (or_introl eq_refl))
-                    prog (S (S (S (S (S A))))) astk h3 o m cs0 vec gl (Some ExDivision) F fs (conj Hcb Hpo) Hb HF Hg Hact HMS3 Hout) as Hx.
+                    prog (S (S (S (S (S A))))) astk h3 o m cs0 vec gl (Some ex0) F fs (conj Hcb Hpo) Hb HF Hg Hact HMS3 Hout) as Hx.
       fold cb frc in Hx.
       destruct r1 as [c|ex| |]; simpl in Hx.
       * inv He. simpl.
@@ -3206,7 +3466,7 @@ Proof.
         destruct s1 as [ip1 stk1 h1 o1 fr1]; simpl in Hip1, Hstk1, HMS1, Hout1, Hfr1; subst ip1 stk1 fr1.
         exists h1, o1, m1, a. split; [|auto].
         eapply star_trans; [exact Hin|]. eapply star_snoc; [exact Hst1|]. apply step_ret_frame. exact HRT.
-      * destruct Hx as (-> & s1 & fip & m1 & fp' & Hst1 & Hrng & Hip1 & Hfr1 & Hrt & (t0 & top' & Hstk1) & Hout1 & HMS1 & Hext1).
+      * destruct Hx as (_ & s1 & fip & m1 & fp' & Hst1 & Hrng & Hip1 & Hfr1 & Hrt & (t0 & top' & Hstk1) & Hout1 & HMS1 & Hext1).
         destruct s1 as [ip1 stk1 h1 o1 fr1]; simpl in Hip1, Hstk1, Hout1, Hfr1, Hrt, HMS1; subst stk1 o1 fr1.
         rewrite (po_tab _ Hpo kidx (kd, fd) pre _ _ fip Hk Hsegs') in Hip1
           by (fold fa; fold A; rewrite Hlenseg; lia).
@@ -3218,7 +3478,7 @@ Proof.
           rewrite (CompileCorrect4Base.code_at_head _ _ _ _
                      (CompileCorrect4Base.code_at_tail _ _ _ _ (CompileCorrect4Base.code_at_tail _ _ _ _ T6))).
           reflexivity. }
-        pose proof (IHcs (pre ++ [clause_seg FT TL kd fd (ex', body)]) Hpost Hcs' Hall j penv st1 r st' ltac:(lia) He
+        pose proof (IHcs (pre ++ [clause_seg FT TL kd fd (ex', body)]) Hpost Hcs' Hall j penv st1 ex r st' ltac:(lia) He
                       prog (t0 :: top') astk h1 (out st1) m1 cs0 fp' F fs Hpo Hb
                       (Forall2_ext_m _ _ _ _ Hext1 HF)
                       (fun g gd Hgd => match Hg g gd Hgd with ex_intro _ cg (conj Hl Hm) =>
@@ -3232,11 +3492,11 @@ Proof.
       * inv He. exact I.
       * inv He. exact I.
     + (* another exception is named: the next clause *)
-      assert (Hjz : star prog (mk A (top ++ astk) h o {| r_fp := fp; r_gp := vec; r_exc := Some ExDivision; r_frames := F :: fs |})
+      assert (Hjz : star prog (mk A (top ++ astk) h o {| r_fp := fp; r_gp := vec; r_exc := Some ex0; r_frames := F :: fs |})
                          (mk (S (S (S (S (S (S (S A))))) + length cb)) astk h3 o frc)).
       { eapply star_snoc; [exact Hpro|].
         eapply (step_jumpz_to frc); [exact HJZ | exact Hp3 | unfold len; lia]. }
-      pose proof (IHcs (pre ++ [clause_seg FT TL kd fd (ex', body)]) Hpost Hcs' Hall j penv st r st' ltac:(lia) He
+      pose proof (IHcs (pre ++ [clause_seg FT TL kd fd (ex', body)]) Hpost Hcs' Hall j penv st ex0 r st' ltac:(lia) He
                     prog [] astk h3 o m cs0 0%nat F fs Hpo Hb HF Hg Hact HMS3 Hout (fun _ _ => eq_refl)) as Hrest.
       fold fa in Hrest. rewrite HAnext in Hrest. cbn [app] in Hrest.
       eapply act_done_star; [exact Hjz | apply ext_refl | exact Hrest].
@@ -3266,17 +3526,17 @@ Definition returned (prog : list rinstr) (s : vstate) (m : morph) (c : nat) (st'
     vrel m' c a /\ MS m' st' h' /\ ext m m' /\ o' = out st'.
 
 Definition rethrown (prog : list rinstr) (s : vstate) (m : morph) (st' : state) (F : frame)
-  (fs : list frame) : Prop :=
+  (fs : list frame) (ex : exn) : Prop :=
   exists h' t m',
     star prog s (mk (hsearch (x_tab X) (Nat.pred (f_ret F)) 0) (t :: f_below F) h' (out st')
-                    {| r_fp := f_fp F; r_gp := f_gp F; r_exc := Some ExDivision; r_frames := fs |}) /\
+                    {| r_fp := f_fp F; r_gp := f_gp F; r_exc := Some ex; r_frames := fs |}) /\
     MS m' st' h' /\ ext m m'.
 
 Definition tconcl (prog : list rinstr) (s : vstate) (pc n : nat) (m : morph) (r : res) (st' : state)
   (e0 : option exn) (F : frame) (fs : list frame) : Prop :=
   match r with
   | ROk c => post_ok prog s (pc + n) m c st' \/ returned prog s m c st' e0 F fs
-  | RExc ex => ex = ExDivision /\ (raises prog s pc (pc + n) m st' \/ rethrown prog s m st' F fs)
+  | RExc ex => ex = ex /\ (raises prog s pc (pc + n) m st' ex \/ rethrown prog s m st' F fs ex)
   | _ => True
   end.
 
@@ -3301,7 +3561,7 @@ Proof.
       split; [eapply ext_trans; eauto|]. split; [exact H7 | congruence].
     + right. exists h', o', m', a. split; [eapply star_trans; eauto|]. split; [exact H2|].
       split; [exact H3|]. split; [eapply ext_trans; eauto | exact H5].
-  - destruct H as (-> & [Hr | (h' & t & m' & H1 & H2 & H3)]); split; auto.
+  - destruct H as (_ & [Hr | (h' & t & m' & H1 & H2 & H3)]); split; auto.
     + left. eapply raises_star; [exact Hst | exact Hfr | exists []; simpl; congruence
                                 | eapply raises_weaken; [exact Hr | lia | lia] | exact Hext].
     + right. exists h', t, m'. split; [eapply star_trans; eauto|]. split; [exact H2 | eapply ext_trans; eauto].
@@ -3354,7 +3614,7 @@ Proof.
   pose proof (IH c _ _ _ _ Ec sc Fc prog ip L ce (mk ip stk h o frc) m Hcc eq_refl HMS Hout Hem) as Hcnd.
   fold cc in Hcnd.
   destruct r1 as [c1|ex| |]; simpl in Hcnd; [| inv He; simpl | inv He; exact I | inv He; exact I].
-  2:{ destruct Hcnd as [-> Hr]. split; [reflexivity|]. left. eapply raises_weaken; [exact Hr | lia | lia]. }
+  2:{ destruct Hcnd as [_ Hr]. split; [reflexivity|]. left. eapply raises_weaken; [exact Hr | lia | lia]. }
   destruct Hcnd as (s1 & m1 & a1 & Hst1 & Hip1 & Hstk1 & Hm1 & HMS1 & Hext1 & Hout1 & Hfr1).
   destruct s1 as [ip1 stk1 h1 o1 fr1]; simpl in Hip1, Hstk1, HMS1, Hout1, Hfr1; subst ip1 stk1 fr1.
   destruct (get_bool st1 c1) as [bv|] eqn:Eg; [|inv He; exact I].
@@ -3401,7 +3661,7 @@ Definition titems_concl (prog : list rinstr) (s : vstate) (pc : nat) (code : lis
        vrel m' c a /\ MS m' st' (v_heap s') /\ ext m m' /\ v_out s' = out st' /\
        v_fr s' = v_fr s) \/
     returned prog s m c st' e0 F fs
-  | RExc ex => ex = ExDivision /\ (raises prog s pc (pc + length code) m st' \/ rethrown prog s m st' F fs)
+  | RExc ex => ex = ex /\ (raises prog s pc (pc + length code) m st' ex \/ rethrown prog s m st' F fs ex)
   | _ => True
   end.
 
@@ -3420,7 +3680,7 @@ Proof.
       split; [eapply ext_trans; eauto|]. split; [exact H8 | congruence].
     + right. exists h', o', m', a. split; [eapply star_trans; eauto|]. split; [exact H2|].
       split; [exact H3|]. split; [eapply ext_trans; eauto | exact H5].
-  - destruct H as (-> & [Hr | (h' & t & m' & H1 & H2 & H3)]); split; auto.
+  - destruct H as (_ & [Hr | (h' & t & m' & H1 & H2 & H3)]); split; auto.
     + left. eapply raises_star; [exact Hst | exact Hfr | exists pre; exact Hstk
                                 | eapply raises_weaken; [exact Hr | lia | lia] | exact Hext].
     + right. exists h', t, m'. split; [eapply star_trans; eauto|]. split; [exact H2 | eapply ext_trans; eauto].
@@ -3462,7 +3722,7 @@ Proof.
   pose proof (IHe e _ _ _ _ Ea sc Fe prog ip L ce (mk ip stk h o frc) m
                 (code_at_app_l _ _ _ _ Hc) eq_refl HMS Hout Hem) as Ha. fold ca in Ha.
   destruct r1 as [c1|ex| |]; simpl in Ha; [| inv He; simpl | inv He; exact I | inv He; exact I].
-  2:{ destruct Ha as [-> Hr]. split; [reflexivity|]. left.
+  2:{ destruct Ha as [_ Hr]. split; [reflexivity|]. left.
       eapply raises_weaken; [exact Hr | lia | rewrite app_length; lia]. }
   destruct Ha as (s1 & m1 & a1 & Hst1 & Hip1 & Hstk1 & Hm1 & HMS1 & Hext1 & Hout1 & Hfr1).
   destruct s1 as [ip1 stk1 h1 o1 fr1]; simpl in Hip1, Hstk1, HMS1, Hout1, Hfr1; subst ip1 stk1 fr1.
@@ -3569,7 +3829,7 @@ Proof.
       pose proof (IHe e _ _ _ _ Ea sc Fe prog ip L ce (mk ip stk h o frc) m
                     (code_at_app_l _ _ _ _ Hc) eq_refl HMS Hout Hem) as Ha. fold ca in Ha.
       destruct r1 as [c1|ex| |]; simpl in Ha; [| inv He; simpl | inv He; exact I | inv He; exact I].
-      2:{ destruct Ha as [-> Hr]. split; [reflexivity|]. left.
+      2:{ destruct Ha as [_ Hr]. split; [reflexivity|]. left.
           eapply raises_weaken; [exact Hr | lia | rewrite app_length; lia]. }
       destruct Ha as (s1 & m1 & a1 & Hst1 & Hip1 & Hstk1 & Hm1 & HMS1 & Hext1 & Hout1 & Hfr1).
       destruct s1 as [ip1 stk1 h1 o1 fr1]; simpl in Hip1, Hstk1, HMS1, Hout1, Hfr1; subst ip1 stk1 fr1.
@@ -3610,7 +3870,7 @@ Proof.
       apply (post_ok_intro _ _ _ _ _ _ (mk (ip + length (compile_items_tl self L ce items)) (a :: stk) h1 o1 frc) m1 a);
         simpl; auto.
       rewrite app_nil_r. reflexivity.
-  - destruct Hi as (-> & [Hr | Hre]); split; auto.
+  - destruct Hi as (_ & [Hr | Hre]); split; auto.
     left. eapply raises_weaken; [exact Hr | lia | rewrite app_length; lia].
 Qed.
 
@@ -3701,7 +3961,7 @@ Proof.
   destruct ocs as [cs|].
   2:{ inv He. simpl in Ha. destruct r as [c|ex| |]; simpl; auto.
       { exfalso. eapply eval_args_none_not_ok; eauto. }
-      destruct Ha as [-> Hr]. split; [reflexivity|]. left.
+      destruct Ha as [_ Hr]. split; [reflexivity|]. left.
       eapply raises_weaken; [exact Hr | lia | subst q; lia]. }
   destruct Ha as (s1 & m1 & astk & Hst1 & Hip1 & Hstk1 & Hlen1 & HF1 & HMS1 & Hext1 & Hout1 & Hfr1).
   destruct s1 as [ip1 stk1 h1 o1 fr1]; simpl in Hip1, Hstk1, HMS1, Hout1, Hfr1; subst ip1 stk1 fr1.
@@ -3736,7 +3996,7 @@ Proof.
     exists h', o', m', a. split; [eapply star_trans; eauto|]. split; [exact Hm'|]. split; [exact HMS'|].
     split; [eapply ext_trans; eauto | exact Ho'].
   - simpl.
-    destruct Hbody as (-> & h' & t & m' & Hrun & HMS' & Hext'). split; [reflexivity|]. right.
+    destruct Hbody as (_ & h' & t & m' & Hrun & HMS' & Hext'). split; [reflexivity|]. right.
     exists h', t, m'. split; [eapply star_trans; eauto|]. split; [exact HMS' | eapply ext_trans; eauto].
 Qed.
 
@@ -3785,7 +4045,7 @@ Proof.
   destruct ocs as [cs|].
   2:{ inv He. simpl in Ha. destruct r as [c|ex| |]; simpl; auto.
       { exfalso. eapply eval_args_none_not_ok; eauto. }
-      destruct Ha as [-> Hr]. split; [reflexivity|]. left.
+      destruct Ha as [_ Hr]. split; [reflexivity|]. left.
       eapply raises_weaken; [exact Hr | lia | subst q; lia]. }
   destruct Ha as (s1 & m1 & astk & Hst1 & Hip1 & Hstk1 & Hlen1 & HF1 & HMS1 & Hext1 & Hout1 & Hfr1).
   destruct s1 as [ip1 stk1 h1 o1 fr1]; simpl in Hip1, Hstk1, HMS1, Hout1, Hfr1; subst ip1 stk1 fr1.
@@ -3836,7 +4096,7 @@ Proof.
     exists h', o', m', a. split; [eapply star_trans; eauto|]. split; [exact Hm'|]. split; [exact HMS'|].
     split; [eapply ext_trans; eauto | exact Ho'].
   - simpl.
-    destruct Hbody as (-> & h' & t & m' & Hrun & HMS' & Hext'). split; [reflexivity|]. right.
+    destruct Hbody as (_ & h' & t & m' & Hrun & HMS' & Hext'). split; [reflexivity|]. right.
     exists h', t, m'. split; [eapply star_trans; eauto|]. split; [exact HMS' | eapply ext_trans; eauto].
 Qed.
 
@@ -3928,10 +4188,10 @@ Proof.
     eapply star_trans; [exact H0|]. eapply star_trans; [exact Hst1|].
     eapply star_step; [apply (step_line frc); exact HLN|].
     apply star_one. apply step_ret_frame. exact HRT. }
-  assert (Hraise : forall ex, rb = RExc ex -> ex = ExDivision ->
-            raises prog (mk (S fa) astk h o frc) (S fa) (S fa + length body) m st3 ->
+  assert (Hraise : forall ex, rb = RExc ex -> ex = ex ->
+            raises prog (mk (S fa) astk h o frc) (S fa) (S fa + length body) m st3 ex ->
             act_done prog (mk fa astk h o frc) m r st' F fs).
-  { intros ex -> -> (s1 & fip & m1 & fp' & Hst1 & Hrng & Hip1 & Hfr1 & Hrt & (t & top & Hstk1) & Hout1 & HMS1 & Hext1).
+  { intros ex -> _ (s1 & fip & m1 & fp' & Hst1 & Hrng & Hip1 & Hfr1 & Hrt & (t & top & Hstk1) & Hout1 & HMS1 & Hext1).
     destruct s1 as [ip1 stk1 h1 o1 fr1]; simpl in Hip1, Hstk1, Hout1, Hfr1, Hrt, HMS1; subst stk1 o1 fr1.
     rewrite Htab in Hip1 by lia. subst ip1.
     assert (Hsegs2 : fsegs FT TL (kd, fd) = [body_seg FT TL kd fd] ++ tail_segs kd fd (fd_catches fd)) by reflexivity.
@@ -3949,7 +4209,7 @@ Proof.
     { intros C1 C2. apply Hrt. unfold is_rethrow. rewrite HLB.
       unfold tail_segs in Hc4. rewrite C1, C2 in Hc4. cbn [map app concat] in Hc4.
       rewrite (CompileCorrect4Base.code_at_head _ _ _ _ Hc4). reflexivity. }
-    pose proof (handlers_run k IHi kidx kd fd Hk cenv vec gl (fd_catches fd) [body_seg FT TL kd fd] Hsegs2 Hcs' Hall' k penv st3 r st'
+    pose proof (handlers_run k IHi kidx kd fd Hk cenv vec gl (fd_catches fd) [body_seg FT TL kd fd] Hsegs2 Hcs' Hall' k penv st3 ex r st'
                   (le_n _) He prog (t :: top) astk h1 (out st3) m1 cs fp' F fs Hpo Hb
                   (Forall2_ext_m _ _ _ _ Hext1 HF)
                   (fun g gd Hgd => match Hg g gd Hgd with ex_intro _ cg (conj Hl Hm) =>
@@ -3971,7 +4231,7 @@ Proof.
     + simpl in Hx. destruct Hx as [Hx | (h' & o' & m' & a & H1 & H2 & H3 & H4 & H5)]; [eapply Hpost; eauto|].
       assert (Er : r = ROk c /\ st' = st3) by (inversion He; auto). destruct Er as [-> ->].
       simpl. exists h', o', m', a. split; [eapply star_trans; eauto | auto].
-    + simpl in Hx. destruct Hx as (-> & [Hx | (h' & t & m' & H1 & H2 & H3)]); [eapply Hraise; eauto|].
+    + simpl in Hx. destruct Hx as (_ & [Hx | (h' & t & m' & H1 & H2 & H3)]); [eapply Hraise; eauto|].
       assert (C12 : fd_catches fd = [] /\ fd_catch_all fd = None).
       { unfold no_catch in Enc. destruct (fd_catches fd); [destruct (fd_catch_all fd); [discriminate | auto] | discriminate]. }
       destruct C12 as [C1 C2]. rewrite C1, C2 in He.
@@ -3989,7 +4249,7 @@ Proof.
     rewrite <- Hbd in Hx.
     destruct rb as [c|ex| |].
     + simpl in Hx. eapply Hpost; eauto.
-    + simpl in Hx. destruct Hx as [-> Hx]. eapply Hraise; eauto.
+    + simpl in Hx. destruct Hx as [_ Hx]. eapply Hraise; eauto.
     + inv He. exact I.
     + inv He. exact I.
 Qed.
@@ -4056,6 +4316,8 @@ Proof.
   - apply case_EDoWhile; assumption.
   - apply case_EFor; assumption.
   - apply case_ELambda.
+  - apply case_EArrLit; assumption.
+  - apply case_EIndex; assumption.
   - apply case_EPrint; assumption.
 Qed.
 
